@@ -1,6 +1,2169 @@
-//! C20 (second half) — additional registry sub-checks, appended to C20's property.
+//! C20 (second half) — four registry sub-checks appended to C20's property:
+//! smart-account context rules, bound tokens, documents, compliance modules
+//! (+ a small deterministic capacity sub-check for the two big bucketed registries).
+//!
+//! Every sub-check interprets a generated history against a reference model written
+//! from the documentation (plain sets / maps), compares the outcome of EVERY operation
+//! with the model's prediction and evaluates EVERY getter after EVERY step.
+//! Enumeration order is never asserted: lists are compared as sets ("each element
+//! exactly once") plus the index bijection where an index getter exists.
+//!
+//! Signatures: `C20/<registry>.<fn>/accepted:<why the model refuses>`,
+//! `C20/<registry>.<fn>/refused:<valid|at-limit|freed|...>`, `C20/<registry>.<getter>/<clause>`.
+
+use crate::contracts::c20b::{binder::Binder, compliance_reg::ComplianceReg, docs::Docs, mock_module::MockModule, mock_policy::MockPolicy};
 use crate::engine::*;
+use crate::envx::{self, call, call_t};
+use crate::gen::pick;
+use proptest::prelude::*;
+use serde::{Deserialize, Serialize};
+use soroban_sdk::testutils::Address as _;
+use soroban_sdk::xdr::{ContractId, Hash, ScAddress};
+use soroban_sdk::{Address, Bytes, BytesN, Env, IntoVal, Map, String as SString, Val, Vec as SVec};
+use std::collections::{BTreeMap, BTreeSet};
+
+use stellar_accounts::smart_account::{ContextRule, ContextRuleType, Signer};
+use stellar_tokens::rwa::compliance::ComplianceHook;
+use stellar_tokens::rwa::extensions::doc_manager::{self as dm, Document};
+
+// documented limits (re-stated from the docs, NOT imported from the code under test)
+const MAX_RULES: usize = 15;
+const MAX_SIGNERS: usize = 15;
+const MAX_POLICIES: usize = 5;
+const MAX_TOKENS: usize = 10_000;
+const TOKEN_BUCKET: usize = 100;
+const MAX_BATCH: usize = 200;
+const MAX_DOCS: usize = 5_000;
+const DOC_BUCKET: usize = 50;
+const MAX_URI: usize = 200;
+const MAX_MODULES: usize = 20;
+
+// ------------------------------------------------------------------ shared helpers
+
+/// Fresh Env without the (SDK 25 default) mainnet per-invocation resource limits: the capacity
+/// scenarios deliberately drive registries to their documented limits (200-token batches emit
+/// ~24 KB of events, a 5 000-document scan touches > 100 ledger entries), and a resource-limit
+/// abort is not a registry answer.
+fn new_env(seq: u32) -> Env {
+    let e = envx::new_env(seq, envx::BIG_TTL);
+    e.cost_estimate().disable_resource_limits();
+    e
+}
+
+fn akey(a: &Address) -> [u8; 32] {
+    match ScAddress::try_from(a) {
+        Ok(ScAddress::Contract(ContractId(Hash(h)))) => h,
+        _ => [0u8; 32],
+    }
+}
+
+/// Outcome of an operation against the model's prediction.
+/// `exp = Ok(situation)` : the model expects success; `Err(why)` : the model expects refusal.
+fn verdict(reg: &str, f: &str, exp: Result<&'static str, &'static str>, got: &Result<Val, String>, what: &str) -> R {
+    match (exp, got) {
+        (Ok(sit), Err(er)) => {
+            bail!(format!("C20/{reg}.{f}/refused:{sit}"), "{what}: the model expects success ({sit}) but the call was refused: {er}")
+        }
+        (Err(why), Ok(_)) => {
+            bail!(format!("C20/{reg}.{f}/accepted:{why}"), "{what}: the model expects refusal ({why}) but the call succeeded")
+        }
+        _ => Ok(()),
+    }
+}
+
+/// State-relative selector of a list-registry element. Positions refer to the
+/// enumeration the registry itself returned after the previous step.
+#[derive(Clone, Debug, Serialize, Deserialize)]
+pub enum Sel {
+    First,
+    Last,
+    /// the element now sitting at the position vacated by the last successful removal
+    Swapped,
+    /// neither first nor last
+    Mid(u16),
+    At(u16),
+    /// universe key that is currently not in the registry
+    Absent(u16),
+    /// key that was removed before and is currently not in the registry
+    Removed(u16),
+    /// (compliance) registered under another hook, not under this one
+    Elsewhere(u16),
+    /// brand-new key
+    Fresh,
+}
+
+enum Pick {
+    Key(usize),
+    Fresh,
+    Nothing,
+}
+
+/// an empty registry turns the positional selectors into "absent key" (the op then probes the refusal path)
+fn resolve(sel: &Sel, obs: &[usize], hole: Option<usize>, absent: &[usize], removed: &[usize], elsewhere: &[usize]) -> Pick {
+    match resolve_pos(sel, obs, hole, absent, removed, elsewhere) {
+        Pick::Nothing => {
+            if absent.is_empty() {
+                Pick::Fresh
+            } else {
+                Pick::Key(absent[0])
+            }
+        }
+        p => p,
+    }
+}
+fn resolve_pos(sel: &Sel, obs: &[usize], hole: Option<usize>, absent: &[usize], removed: &[usize], elsewhere: &[usize]) -> Pick {
+    let n = obs.len();
+    let from_absent = |s: u16| if absent.is_empty() { Pick::Fresh } else { Pick::Key(absent[pick(s, absent.len())]) };
+    match sel {
+        Sel::First => {
+            if n > 0 {
+                Pick::Key(obs[0])
+            } else {
+                Pick::Nothing
+            }
+        }
+        Sel::Last => {
+            if n > 0 {
+                Pick::Key(obs[n - 1])
+            } else {
+                Pick::Nothing
+            }
+        }
+        Sel::Swapped => match hole {
+            Some(h) if h < n => Pick::Key(obs[h]),
+            _ => {
+                if n > 0 {
+                    Pick::Key(obs[n / 2])
+                } else {
+                    Pick::Nothing
+                }
+            }
+        },
+        Sel::Mid(s) => {
+            if n >= 3 {
+                Pick::Key(obs[1 + pick(*s, n - 2)])
+            } else if n > 0 {
+                Pick::Key(obs[pick(*s, n)])
+            } else {
+                Pick::Nothing
+            }
+        }
+        Sel::At(s) => {
+            if n > 0 {
+                Pick::Key(obs[pick(*s, n)])
+            } else {
+                Pick::Nothing
+            }
+        }
+        Sel::Absent(s) => from_absent(*s),
+        Sel::Removed(s) => {
+            if removed.is_empty() {
+                from_absent(*s)
+            } else {
+                Pick::Key(removed[pick(*s, removed.len())])
+            }
+        }
+        Sel::Elsewhere(s) => {
+            if elsewhere.is_empty() {
+                from_absent(*s)
+            } else {
+                Pick::Key(elsewhere[pick(*s, elsewhere.len())])
+            }
+        }
+        Sel::Fresh => Pick::Fresh,
+    }
+}
+
+fn sel_for_remove() -> BoxedStrategy<Sel> {
+    prop_oneof![
+        2 => Just(Sel::First),
+        2 => Just(Sel::Last),
+        6 => Just(Sel::Swapped),
+        6 => any::<u16>().prop_map(Sel::Mid),
+        3 => any::<u16>().prop_map(Sel::At),
+        1 => any::<u16>().prop_map(Sel::Absent),
+        1 => any::<u16>().prop_map(Sel::Removed),
+        1 => any::<u16>().prop_map(Sel::Elsewhere),
+        1 => Just(Sel::Fresh),
+    ]
+    .boxed()
+}
+fn sel_for_add() -> BoxedStrategy<Sel> {
+    prop_oneof![
+        7 => any::<u16>().prop_map(Sel::Absent),
+        3 => any::<u16>().prop_map(Sel::Removed),
+        2 => Just(Sel::Fresh),
+        2 => any::<u16>().prop_map(Sel::At),
+        1 => Just(Sel::First),
+        1 => Just(Sel::Last),
+        1 => any::<u16>().prop_map(Sel::Elsewhere),
+    ]
+    .boxed()
+}
+
+/// Index sample for a big bucketed list: both ends, every bucket edge (for huge lists only
+/// the outer ones and those around the hole), the neighbourhood of the hole, a spread.
+fn windows(n: usize, bucket: usize, hole: Option<usize>) -> Vec<u32> {
+    let mut s: BTreeSet<usize> = BTreeSet::new();
+    // last slot of a bucket and first slot of the next one
+    let edge = |c: usize, s: &mut BTreeSet<usize>| {
+        s.insert(c.saturating_sub(1));
+        s.insert(c);
+    };
+    s.insert(0);
+    s.insert(1);
+    edge(n.saturating_sub(1), &mut s);
+    let nb = n / bucket;
+    for b in 1..=nb {
+        if n <= 1000 || b <= 2 || b + 2 > nb {
+            edge(b * bucket, &mut s);
+        }
+    }
+    if let Some(h) = hole {
+        s.insert(h.saturating_sub(1));
+        s.insert(h);
+        s.insert(h + 1);
+        edge((h / bucket) * bucket, &mut s);
+        edge((h / bucket + 1) * bucket, &mut s);
+    }
+    s.insert(n / 3);
+    s.insert(2 * n / 3);
+    s.into_iter().filter(|i| *i < n).map(|i| i as u32).collect()
+}
+
+/// bookkeeping shared by the list registries for the non-triviality rule:
+/// "a removal of an element that is neither first nor last followed by removal of the
+/// element that was moved into its place".
+#[derive(Default, Clone, Debug)]
+struct SwapTrack {
+    hole: Option<usize>,
+    /// position of the last removal when it was a middle one; the key sitting there afterwards
+    pending_pos: Option<usize>,
+    pending_key: Option<usize>,
+    hit: bool,
+}
+impl SwapTrack {
+    /// call after a successful removal of `key` that sat at `pos` in a list of `n_before`
+    fn removed(&mut self, key: usize, pos: Option<usize>, n_before: usize) {
+        if self.pending_key == Some(key) {
+            self.hit = true;
+        }
+        self.pending_key = None;
+        self.pending_pos = None;
+        self.hole = pos;
+        if let Some(p) = pos {
+            if p > 0 && p + 1 < n_before {
+                self.pending_pos = Some(p);
+            }
+        }
+    }
+    /// call after the enumeration was re-read
+    fn observe(&mut self, obs: &[usize]) {
+        if let Some(p) = self.pending_pos.take() {
+            self.pending_key = obs.get(p).copied();
+        }
+    }
+}
+
+// ================================================================== 1. smart-account context rules
+
+const NS: usize = 17; // signer universe (first 6 = regular universe, the rest for capacity)
+const NP: usize = 6; // policy universe
+const NT: usize = 4; // context types in use (+1 never used)
+const SMALL: usize = 6;
+
+#[derive(Clone, Debug, Serialize, Deserialize)]
+pub enum RSel {
+    First,
+    Last,
+    /// the rule that followed the last removed rule in its per-type list
+    Swapped,
+    Mid(u16),
+    At(u16),
+    Removed(u16),
+    /// an id that was never handed out (next_id + k)
+    Never(u8),
+}
+#[derive(Clone, Debug, Serialize, Deserialize)]
+pub enum KSel {
+    Member(u16),
+    NonMember(u16),
+    Any(u8),
+}
+#[derive(Clone, Debug, Serialize, Deserialize)]
+pub enum Spec {
+    Fresh { smask: u8, pmask: u8 },
+    /// (type, signers, policies) of a live rule -> must be refused as duplicate whatever the order
+    CopyLive(u16),
+    /// ... of a rule removed before
+    CopyRemoved(u16),
+    /// ... of a rule as it was BEFORE a later signer/policy edit
+    CopyStale(u16),
+    /// first `ns` signers / first `np` policies of the universe
+    Big { ns: u8, np: u8 },
+    /// a live rule's (type, signers, policies) with ONE signer / policy toggled: one edit away from a twin
+    NearLive { src: u16, key: u8, on_policy: bool },
+}
+#[derive(Clone, Debug, Serialize, Deserialize)]
+pub enum Vu {
+    None,
+    Rel(i8),
+}
+#[derive(Clone, Debug, Serialize, Deserialize)]
+pub enum ROp {
+    AddRule { ty: u8, spec: Spec, order: u8, dup_signer: bool, name: u8, vu: Vu },
+    RemoveRule(RSel),
+    AddSigner(RSel, KSel),
+    RemoveSigner(RSel, KSel),
+    AddPolicy(RSel, KSel),
+    RemovePolicy(RSel, KSel),
+    /// kind 0..4 = add_signer / remove_signer / add_policy / remove_policy chosen so that the
+    /// edited rule would become identical to another live rule
+    EditIntoDup { kind: u8, sel: u16 },
+    SetName(RSel, u8),
+    SetValidUntil(RSel, Vu),
+    Advance(u8),
+}
+#[derive(Clone, Debug, Serialize, Deserialize)]
+pub struct RCase {
+    pub seq: u32,
+    pub init_s: u8,
+    pub init_p: u8,
+    /// extra rules (distinct fingerprints) added during set-up
+    pub prefill: u8,
+    pub ops: Vec<ROp>,
+}
+
+fn rsel() -> BoxedStrategy<RSel> {
+    prop_oneof![
+        2 => Just(RSel::First),
+        4 => Just(RSel::Last),
+        3 => Just(RSel::Swapped),
+        4 => any::<u16>().prop_map(RSel::Mid),
+        4 => any::<u16>().prop_map(RSel::At),
+        1 => any::<u16>().prop_map(RSel::Removed),
+        1 => (0u8..3).prop_map(RSel::Never),
+    ]
+    .boxed()
+}
+fn ksel(member_w: u32, non_w: u32) -> BoxedStrategy<KSel> {
+    prop_oneof![
+        member_w => any::<u16>().prop_map(KSel::Member),
+        non_w => any::<u16>().prop_map(KSel::NonMember),
+        1 => any::<u8>().prop_map(KSel::Any),
+    ]
+    .boxed()
+}
+fn vu_strategy() -> BoxedStrategy<Vu> {
+    prop_oneof![8 => Just(Vu::None), 4 => (-1i8..=4).prop_map(Vu::Rel), 1 => any::<i8>().prop_map(Vu::Rel)].boxed()
+}
+fn add_rule_strategy(big_w: u32) -> BoxedStrategy<ROp> {
+    let spec = prop_oneof![
+        8 => (0u8..16, 0u8..8).prop_map(|(smask, pmask)| Spec::Fresh { smask, pmask }),
+        2 => (any::<u8>(), 0u8..64).prop_map(|(smask, pmask)| Spec::Fresh { smask, pmask }),
+        3 => any::<u16>().prop_map(Spec::CopyLive),
+        3 => any::<u16>().prop_map(Spec::CopyRemoved),
+        2 => any::<u16>().prop_map(Spec::CopyStale),
+        big_w => (13u8..=16, 0u8..=6).prop_map(|(ns, np)| Spec::Big { ns, np }),
+        4 => (any::<u16>(), 0u8..4, any::<bool>()).prop_map(|(src, key, on_policy)| Spec::NearLive { src, key, on_policy }),
+        2 => proptest::sample::select(vec![0u8, 1, 2, 4, 3]).prop_map(|pmask| Spec::Fresh { smask: 0, pmask }),
+    ];
+    let ty = prop_oneof![3 => Just(0u8), 3 => Just(1u8), 1 => Just(2u8), 1 => Just(3u8)];
+    (ty, spec, 0u8..4, proptest::bool::weighted(0.05), 0u8..6, vu_strategy())
+        .prop_map(|(ty, spec, order, dup_signer, name, vu)| ROp::AddRule { ty, spec, order, dup_signer, name, vu })
+        .boxed()
+}
+fn rop_general() -> BoxedStrategy<ROp> {
+    let tgt = || prop_oneof![2 => Just(RSel::Last), 4 => rsel()];
+    prop_oneof![
+        7 => add_rule_strategy(1),
+        4 => prop_oneof![3 => Just(RSel::Swapped), 3 => any::<u16>().prop_map(RSel::Mid), 4 => rsel()].prop_map(ROp::RemoveRule),
+        3 => (tgt(), ksel(1, 4)).prop_map(|(r, k)| ROp::AddSigner(r, k)),
+        3 => (tgt(), ksel(4, 1)).prop_map(|(r, k)| ROp::RemoveSigner(r, k)),
+        3 => (tgt(), ksel(1, 4)).prop_map(|(r, k)| ROp::AddPolicy(r, k)),
+        3 => (tgt(), ksel(4, 1)).prop_map(|(r, k)| ROp::RemovePolicy(r, k)),
+        4 => (0u8..4, any::<u16>()).prop_map(|(kind, sel)| ROp::EditIntoDup { kind, sel }),
+        1 => (rsel(), 0u8..6).prop_map(|(r, n)| ROp::SetName(r, n)),
+        1 => (rsel(), vu_strategy()).prop_map(|(r, v)| ROp::SetValidUntil(r, v)),
+        1 => (0u8..20).prop_map(ROp::Advance),
+    ]
+    .boxed()
+}
+/// edits concentrated on the newest rule, for the per-rule limits
+fn rop_keys() -> BoxedStrategy<ROp> {
+    let last = || prop_oneof![6 => Just(RSel::Last), 1 => rsel()];
+    prop_oneof![
+        5 => (last(), ksel(0, 6)).prop_map(|(r, k)| ROp::AddSigner(r, k)),
+        2 => (last(), ksel(6, 0)).prop_map(|(r, k)| ROp::RemoveSigner(r, k)),
+        5 => (last(), ksel(0, 6)).prop_map(|(r, k)| ROp::AddPolicy(r, k)),
+        2 => (last(), ksel(6, 0)).prop_map(|(r, k)| ROp::RemovePolicy(r, k)),
+        1 => add_rule_strategy(6),
+        1 => rsel().prop_map(ROp::RemoveRule),
+    ]
+    .boxed()
+}
+fn rop_rules_cap() -> BoxedStrategy<ROp> {
+    prop_oneof![6 => add_rule_strategy(0), 3 => rsel().prop_map(ROp::RemoveRule), 2 => rop_general()].boxed()
+}
+
+fn rcase_strategy(tier: Tier) -> BoxedStrategy<RCase> {
+    let max_ops = tier.pick(40usize, 50usize);
+    let head = (100u32..5000, 0u8..16, 0u8..8);
+    let general = (head.clone(), prop_oneof![4 => Just(0u8), 2 => 1u8..4], proptest::collection::vec(rop_general(), 1..max_ops))
+        .prop_map(|((seq, init_s, init_p), prefill, ops)| RCase { seq, init_s, init_p, prefill, ops });
+    let rules_cap = (head.clone(), 11u8..=14, proptest::collection::vec(rop_rules_cap(), 1..tier.pick(16usize, 30usize)))
+        .prop_map(|((seq, init_s, init_p), prefill, ops)| RCase { seq, init_s, init_p, prefill, ops });
+    let keys_cap = (head, (13u8..=16, 3u8..=6, 0u8..NT as u8), proptest::collection::vec(rop_keys(), 1..tier.pick(20usize, 40usize))).prop_map(
+        |((seq, init_s, init_p), (ns, np, ty), mut ops)| {
+            ops.insert(0, ROp::AddRule { ty, spec: Spec::Big { ns, np }, order: 0, dup_signer: false, name: 1, vu: Vu::None });
+            RCase { seq, init_s, init_p, prefill: 0, ops }
+        },
+    );
+    prop_oneof![6 => general, 2 => rules_cap, 2 => keys_cap].boxed()
+}
+
+struct RUniv {
+    signers: Vec<Signer>,
+    policies: Vec<Address>,
+    /// NT types in use + one that never gets a rule
+    types: Vec<ContextRuleType>,
+}
+type Fp = (usize, BTreeSet<usize>, BTreeSet<usize>);
+#[derive(Clone, Debug, PartialEq)]
+struct MRule {
+    ty: usize,
+    name: String,
+    vu: Option<u32>,
+    signers: BTreeSet<usize>,
+    policies: BTreeSet<usize>,
+}
+impl MRule {
+    fn fp(&self) -> Fp {
+        (self.ty, self.signers.clone(), self.policies.clone())
+    }
+}
+#[derive(Default)]
+struct RModel {
+    rules: BTreeMap<u32, MRule>,
+    /// live ids in insertion order (used for selection only, never asserted)
+    order: Vec<u32>,
+    next_id: u32,
+    removed: Vec<(u32, Fp)>,
+    stale: Vec<Fp>,
+}
+impl RModel {
+    fn dup(&self, fp: &Fp, except: Option<u32>) -> bool {
+        self.rules.iter().any(|(id, r)| Some(*id) != except && r.fp() == *fp)
+    }
+    fn type_list(&self, ty: usize) -> Vec<u32> {
+        self.order.iter().copied().filter(|id| self.rules[id].ty == ty).collect()
+    }
+}
+
+fn rule_matches(e: &Env, u: &RUniv, cr: &ContextRule, id: u32, m: &MRule) -> Result<(), String> {
+    if cr.id != id {
+        return Err(format!("id {} instead of {id}", cr.id));
+    }
+    if cr.context_type != u.types[m.ty] {
+        return Err(format!("rule {id}: context type {:?}, model type #{}", cr.context_type, m.ty));
+    }
+    if cr.name != SString::from_str(e, &m.name) {
+        return Err(format!("rule {id}: name {:?}, model {:?}", cr.name, m.name));
+    }
+    if cr.valid_until != m.vu {
+        return Err(format!("rule {id}: valid_until {:?}, model {:?}", cr.valid_until, m.vu));
+    }
+    let mut ss = BTreeSet::new();
+    for s in cr.signers.iter() {
+        let Some(ix) = u.signers.iter().position(|x| *x == s) else { return Err(format!("rule {id}: unknown signer {:?}", s)) };
+        if !ss.insert(ix) {
+            return Err(format!("rule {id}: signer #{ix} listed twice"));
+        }
+    }
+    if ss != m.signers {
+        return Err(format!("rule {id}: signer set {:?}, model {:?}", ss, m.signers));
+    }
+    let mut ps = BTreeSet::new();
+    for p in cr.policies.iter() {
+        let Some(ix) = u.policies.iter().position(|x| *x == p) else { return Err(format!("rule {id}: unknown policy")) };
+        if !ps.insert(ix) {
+            return Err(format!("rule {id}: policy #{ix} listed twice"));
+        }
+    }
+    if ps != m.policies {
+        return Err(format!("rule {id}: policy set {:?}, model {:?}", ps, m.policies));
+    }
+    Ok(())
+}
+
+/// every getter of the context-rule registry against the model
+fn check_rules(e: &Env, acct: &Address, u: &RUniv, m: &RModel, failing_ids: &[u32], what: &str) -> R {
+    let cnt = call_t::<u32>(e, acct, "get_context_rules_count", args![e]).map_err(|er| violation("C20/ctx_rules.get_context_rules_count/failed", er))?;
+    ensure!(cnt as usize == m.rules.len(), "C20/ctx_rules.get_context_rules_count/wrong", "{what}: count {cnt}, model {}", m.rules.len());
+    for (ty, t) in u.types.iter().enumerate() {
+        let list = call_t::<SVec<ContextRule>>(e, acct, "get_context_rules", args![e; t.clone()])
+            .map_err(|er| violation("C20/ctx_rules.get_context_rules/failed", format!("{what}: type #{ty}: {er}")))?;
+        let want: BTreeSet<u32> = m.rules.iter().filter(|(_, r)| r.ty == ty).map(|(id, _)| *id).collect();
+        let mut got = BTreeSet::new();
+        for cr in list.iter() {
+            ensure!(got.insert(cr.id), "C20/ctx_rules.get_context_rules/element-twice", "{what}: type #{ty} lists rule {} twice", cr.id);
+            let Some(mr) = m.rules.get(&cr.id) else {
+                bail!("C20/ctx_rules.get_context_rules/set-differs", "{what}: type #{ty} lists rule {} which the model does not hold (model ids {:?})", cr.id, want)
+            };
+            rule_matches(e, u, &cr, cr.id, mr).map_err(|er| violation("C20/ctx_rules.get_context_rules/wrong-rule", format!("{what}: type #{ty}: {er}")))?;
+        }
+        ensure!(got == want, "C20/ctx_rules.get_context_rules/set-differs", "{what}: type #{ty} lists ids {:?}, model {:?}", got, want);
+    }
+    for (id, mr) in &m.rules {
+        let cr = call_t::<ContextRule>(e, acct, "get_context_rule", args![e; *id])
+            .map_err(|er| violation("C20/ctx_rules.get_context_rule/present-but-failed", format!("{what}: rule {id}: {er}")))?;
+        rule_matches(e, u, &cr, *id, mr).map_err(|er| violation("C20/ctx_rules.get_context_rule/wrong-rule", format!("{what}: {er}")))?;
+    }
+    for id in failing_ids {
+        if m.rules.contains_key(id) {
+            continue;
+        }
+        let r = call(e, acct, "get_context_rule", args![e; *id]);
+        ensure!(r.is_err(), "C20/ctx_rules.get_context_rule/absent-found", "{what}: get_context_rule({id}) answers although the model holds no such rule (next id {})", m.next_id);
+    }
+    Ok(())
+}
+
+/// ids whose lookup must fail: the next (never used) id, the most recently removed one, one older removed id
+fn failing_ids(m: &RModel, last_removed: Option<u32>, step: usize) -> Vec<u32> {
+    let mut v = vec![m.next_id];
+    if let Some(id) = last_removed {
+        v.push(id);
+    }
+    if !m.removed.is_empty() {
+        v.push(m.removed[step % m.removed.len()].0);
+    }
+    v
+}
+
+fn order_signers(set: &BTreeSet<usize>, order: u8) -> Vec<usize> {
+    let mut v: Vec<usize> = set.iter().copied().collect();
+    match order {
+        1 => v.reverse(),
+        2 => {
+            if v.len() > 1 {
+                v.rotate_left(1)
+            }
+        }
+        3 => {
+            if v.len() > 2 {
+                v.swap(0, 1)
+            }
+        }
+        _ => {}
+    }
+    v
+}
+
+pub fn run_rules(case: &RCase, ctx: &mut Ctx) -> R {
+    use crate::examples::multisig_account::contract::MultisigContract;
+    let e = new_env(case.seq);
+    let e = &e;
+    // universe
+    let ver0 = Address::generate(e);
+    let ver1 = Address::generate(e);
+    let mut signers = vec![
+        Signer::Delegated(Address::generate(e)),
+        Signer::Delegated(Address::generate(e)),
+        Signer::External(ver0.clone(), Bytes::from_array(e, &[1, 2, 3])),
+        Signer::External(ver0.clone(), Bytes::from_array(e, &[1, 2, 4])),
+        Signer::Delegated(Address::generate(e)),
+        Signer::External(ver1.clone(), Bytes::from_array(e, &[1, 2, 3])),
+    ];
+    while signers.len() < NS {
+        signers.push(Signer::Delegated(Address::generate(e)));
+    }
+    let policies: Vec<Address> = (0..NP).map(|_| e.register(MockPolicy, ())).collect();
+    let types = vec![
+        ContextRuleType::Default,
+        ContextRuleType::CallContract(Address::generate(e)),
+        ContextRuleType::CallContract(Address::generate(e)),
+        ContextRuleType::CreateContract(BytesN::from_array(e, &[7u8; 32])),
+        ContextRuleType::CreateContract(BytesN::from_array(e, &[8u8; 32])),
+    ];
+    let u = RUniv { signers, policies, types };
+    let unit: Val = ().into_val(e);
+    let pol_map = |set: &BTreeSet<usize>| {
+        let mut m: Map<Address, Val> = Map::new(e);
+        for p in set {
+            m.set(u.policies[*p].clone(), unit);
+        }
+        m
+    };
+    let sig_vec = |ids: &[usize]| {
+        let mut v: SVec<Signer> = SVec::new(e);
+        for i in ids {
+            v.push_back(u.signers[*i].clone());
+        }
+        v
+    };
+
+    // initial rule (constructor): Default type, id 0
+    let mut s0: BTreeSet<usize> = (0..4).filter(|i| case.init_s >> i & 1 == 1).collect();
+    let p0: BTreeSet<usize> = (0..3).filter(|i| case.init_p >> i & 1 == 1).collect();
+    if s0.is_empty() && p0.is_empty() {
+        s0.insert(0);
+    }
+    let acct = e.register(MultisigContract, (sig_vec(&order_signers(&s0, 0)), pol_map(&p0)));
+    e.mock_all_auths(); // the admin entry points require the account's own authorization; not C20's subject
+    let mut m = RModel::default();
+    m.rules.insert(0, MRule { ty: 0, name: "multisig".into(), vu: None, signers: s0, policies: p0 });
+    m.order.push(0);
+    m.next_id = 1;
+    for j in 0..case.prefill as usize {
+        let ty = j % NT;
+        let ss: BTreeSet<usize> = [6 + (j % 11)].into_iter().collect();
+        let name = format!("pre-{j}");
+        let r = call(e, &acct, "add_context_rule", args![e; u.types[ty].clone(), SString::from_str(e, &name), Option::<u32>::None, sig_vec(&[6 + (j % 11)]), pol_map(&BTreeSet::new())]);
+        ensure!(r.is_ok(), "C20/ctx_rules.add_context_rule/refused:prefill", "set-up rule {j} refused: {:?}", r);
+        m.rules.insert(m.next_id, MRule { ty, name, vu: None, signers: ss, policies: BTreeSet::new() });
+        m.order.push(m.next_id);
+        m.next_id += 1;
+    }
+    check_rules(e, &acct, &u, &m, &[m.next_id], "after set-up")?;
+
+    let mut pending_succ: Option<u32> = None;
+    let mut mid_then_succ = false;
+    let (mut dup_refused, mut readd_ok) = (false, false);
+    let mut last_removed: Option<u32> = None;
+
+    for (step, op) in case.ops.iter().enumerate() {
+        let what = format!("step {step} {:?}", op);
+        let seq = envx::seq(e);
+        let ps_now = pending_succ;
+        let resolve_rule = |m: &RModel, r: &RSel| -> Option<u32> {
+            let n = m.order.len();
+            match r {
+                RSel::First => m.order.first().copied(),
+                RSel::Last => m.order.last().copied(),
+                RSel::Swapped => match ps_now {
+                    Some(id) if m.rules.contains_key(&id) => Some(id),
+                    _ => {
+                        if n > 0 {
+                            Some(m.order[n / 2])
+                        } else {
+                            None
+                        }
+                    }
+                },
+                RSel::Mid(s) => {
+                    if n >= 3 {
+                        Some(m.order[1 + pick(*s, n - 2)])
+                    } else if n > 0 {
+                        Some(m.order[pick(*s, n)])
+                    } else {
+                        None
+                    }
+                }
+                RSel::At(s) => {
+                    if n > 0 {
+                        Some(m.order[pick(*s, n)])
+                    } else {
+                        None
+                    }
+                }
+                RSel::Removed(s) => {
+                    if m.removed.is_empty() {
+                        Some(m.next_id)
+                    } else {
+                        Some(m.removed[pick(*s, m.removed.len())].0)
+                    }
+                }
+                RSel::Never(k) => Some(m.next_id + *k as u32),
+            }
+        };
+        let resolve_key = |members: Option<&BTreeSet<usize>>, k: &KSel, uni: usize| -> usize {
+            match (members, k) {
+                (Some(ms), KSel::Member(s)) if !ms.is_empty() => *ms.iter().nth(pick(*s, ms.len())).unwrap(),
+                (Some(ms), KSel::Member(s)) | (Some(ms), KSel::NonMember(s)) => {
+                    let range = if ms.len() >= 5 { uni } else { SMALL.min(uni) };
+                    let non: Vec<usize> = (0..range).filter(|i| !ms.contains(i)).collect();
+                    if non.is_empty() {
+                        pick(*s, uni)
+                    } else {
+                        non[pick(*s, non.len())]
+                    }
+                }
+                (None, KSel::Member(s)) | (None, KSel::NonMember(s)) => pick(*s, SMALL.min(uni)),
+                (_, KSel::Any(x)) => *x as usize % SMALL.min(uni),
+            }
+        };
+
+        // an edit of one signer / policy of one rule, shared by the four edit ops and EditIntoDup
+        // kind: 0 add_signer, 1 remove_signer, 2 add_policy, 3 remove_policy
+        let mut edit: Option<(u8, u32, usize)> = None;
+        match op {
+            ROp::Advance(k) => {
+                envx::advance(e, *k as u32);
+                check_rules(e, &acct, &u, &m, &failing_ids(&m, last_removed, step), &what)?;
+                continue;
+            }
+            ROp::AddRule { ty, spec, order, dup_signer, name, vu } => {
+                let mut origin = "valid";
+                let (ty, ss, ps): Fp = match spec {
+                    Spec::Fresh { smask, pmask } => (
+                        *ty as usize % NT,
+                        (0..8).filter(|i| smask >> i & 1 == 1).collect(),
+                        (0..NP).filter(|i| pmask >> i & 1 == 1).collect(),
+                    ),
+                    Spec::CopyLive(s) if !m.order.is_empty() => m.rules[&m.order[pick(*s, m.order.len())]].fp(),
+                    Spec::CopyRemoved(s) if !m.removed.is_empty() => {
+                        origin = "freed";
+                        m.removed[pick(*s, m.removed.len())].1.clone()
+                    }
+                    Spec::CopyStale(s) if !m.stale.is_empty() => {
+                        origin = "freed";
+                        m.stale[pick(*s, m.stale.len())].clone()
+                    }
+                    Spec::Big { ns, np } => (*ty as usize % NT, (0..(*ns as usize).min(NS)).collect(), (0..(*np as usize).min(NP)).collect()),
+                    Spec::NearLive { src, key, on_policy } if !m.order.is_empty() => {
+                        let mut fp = m.rules[&m.order[pick(*src, m.order.len())]].fp();
+                        let set = if *on_policy { &mut fp.2 } else { &mut fp.1 };
+                        let k = *key as usize % 4;
+                        if !set.remove(&k) {
+                            set.insert(k);
+                        }
+                        fp
+                    }
+                    Spec::NearLive { src, key, .. } => (*ty as usize % NT, [*key as usize % 4].into_iter().collect(), (0..3).filter(|i| src >> i & 1 == 1).collect()),
+                    Spec::CopyLive(s) | Spec::CopyRemoved(s) | Spec::CopyStale(s) => {
+                        (*ty as usize % NT, (0..4).filter(|i| s >> i & 1 == 1).collect(), (0..3).filter(|i| s >> (i + 4) & 1 == 1).collect())
+                    }
+                };
+                let mut sv = order_signers(&ss, *order);
+                let dup_in_list = *dup_signer && !sv.is_empty();
+                if dup_in_list {
+                    sv.push(sv[0]);
+                }
+                let vu_abs = match vu {
+                    Vu::None => None,
+                    Vu::Rel(d) => Some((seq as i64 + *d as i64).max(0) as u32),
+                };
+                let name_s = format!("rule-{name}");
+                let fp: Fp = (ty, ss.clone(), ps.clone());
+                let exp: Result<&'static str, &'static str> = if m.rules.len() >= MAX_RULES {
+                    Err("limit-rules")
+                } else if dup_in_list {
+                    Err("duplicate-signer-in-list")
+                } else if vu_abs.map(|v| v < seq).unwrap_or(false) {
+                    Err("past-valid-until")
+                } else if ss.len() > MAX_SIGNERS {
+                    Err("limit-signers")
+                } else if ps.len() > MAX_POLICIES {
+                    Err("limit-policies")
+                } else if ss.is_empty() && ps.is_empty() {
+                    Err("no-signers-and-policies")
+                } else if m.dup(&fp, None) {
+                    Err("duplicate-rule")
+                } else if m.rules.len() + 1 == MAX_RULES {
+                    Ok("at-limit")
+                } else if ss.len() == MAX_SIGNERS || ps.len() == MAX_POLICIES {
+                    Ok("at-limit")
+                } else {
+                    Ok(origin)
+                };
+                let r = call(e, &acct, "add_context_rule", args![e; u.types[ty].clone(), SString::from_str(e, &name_s), vu_abs, sig_vec(&sv), pol_map(&ps)]);
+                ctx.op(r.is_ok());
+                verdict("ctx_rules", "add_context_rule", exp, &r, &what)?;
+                match (&r, exp) {
+                    (Ok(v), _) => {
+                        let mr = MRule { ty, name: name_s, vu: vu_abs, signers: ss, policies: ps };
+                        let cr: ContextRule = soroban_sdk::TryFromVal::try_from_val(e, v)
+                            .map_err(|_| violation("C20/ctx_rules.add_context_rule/wrong-return", format!("{what}: return value is not a ContextRule")))?;
+                        ensure!(
+                            cr.id == m.next_id,
+                            if cr.id < m.next_id { "C20/ctx_rules.add_context_rule/id-reused" } else { "C20/ctx_rules.add_context_rule/id-skipped" },
+                            "{what}: new rule got id {}, ids handed out so far 0..{} (live {:?})",
+                            cr.id,
+                            m.next_id,
+                            m.order
+                        );
+                        rule_matches(e, &u, &cr, m.next_id, &mr).map_err(|er| violation("C20/ctx_rules.add_context_rule/wrong-return", format!("{what}: {er}")))?;
+                        m.rules.insert(m.next_id, mr);
+                        m.order.push(m.next_id);
+                        m.next_id += 1;
+                        match exp {
+                            Ok("at-limit") => ctx.class("rules:add_at_limit_ok"),
+                            Ok("freed") => {
+                                readd_ok = true;
+                                ctx.class("rules:readd_freed_fingerprint_ok")
+                            }
+                            _ => {}
+                        }
+                    }
+                    (Err(_), Err(why)) => {
+                        ctx.class(&format!("rules:add_refused:{why}"));
+                        if why == "duplicate-rule" {
+                            dup_refused = true;
+                            if *order != 0 && fp.1.len() > 1 {
+                                ctx.class("rules:permuted_duplicate_refused");
+                            }
+                        }
+                    }
+                    _ => {}
+                }
+            }
+            ROp::RemoveRule(rs) => {
+                let Some(id) = resolve_rule(&m, rs) else {
+                    ctx.class("skipped_op");
+                    continue;
+                };
+                let live = m.rules.contains_key(&id);
+                let exp = if live { Ok("valid") } else { Err("absent-rule") };
+                let r = call(e, &acct, "remove_context_rule", args![e; id]);
+                ctx.op(r.is_ok());
+                verdict("ctx_rules", "remove_context_rule", exp, &r, &what)?;
+                if r.is_ok() {
+                    let ty = m.rules[&id].ty;
+                    let tl = m.type_list(ty);
+                    let p = tl.iter().position(|x| *x == id).unwrap_or(0);
+                    let succ = if p > 0 && p + 1 < tl.len() { Some(tl[p + 1]) } else { None };
+                    if succ.is_some() {
+                        ctx.class("rules:mid_removal");
+                    }
+                    if tl.len() == 1 {
+                        ctx.class("rules:remove_only_of_type");
+                    }
+                    let mr = m.rules.remove(&id).unwrap();
+                    m.order.retain(|x| *x != id);
+                    m.removed.push((id, mr.fp()));
+                    last_removed = Some(id);
+                    if pending_succ == Some(id) {
+                        mid_then_succ = true;
+                    }
+                    pending_succ = succ;
+                } else {
+                    ctx.class("rules:remove_absent_refused");
+                }
+            }
+            ROp::AddSigner(rs, k) | ROp::RemoveSigner(rs, k) | ROp::AddPolicy(rs, k) | ROp::RemovePolicy(rs, k) => {
+                let Some(id) = resolve_rule(&m, rs) else {
+                    ctx.class("skipped_op");
+                    continue;
+                };
+                let kind: u8 = match op {
+                    ROp::AddSigner(..) => 0,
+                    ROp::RemoveSigner(..) => 1,
+                    ROp::AddPolicy(..) => 2,
+                    _ => 3,
+                };
+                let members = m.rules.get(&id).map(|r| if kind < 2 { &r.signers } else { &r.policies });
+                // add ops default to non-members, remove ops to members; the selector may invert that
+                let key = resolve_key(members, k, if kind < 2 { NS } else { NP });
+                edit = Some((kind, id, key));
+            }
+            ROp::EditIntoDup { kind, sel } => {
+                let kind = *kind % 4;
+                let mut cands: Vec<(u32, usize)> = vec![];
+                for id in &m.order {
+                    let r = &m.rules[id];
+                    let uni = if kind < 2 { SMALL } else { NP };
+                    for k in 0..uni {
+                        let mut fp = r.fp();
+                        let set = if kind < 2 { &mut fp.1 } else { &mut fp.2 };
+                        let changed = if kind % 2 == 0 { set.insert(k) } else { set.remove(&k) };
+                        if changed && !(fp.1.is_empty() && fp.2.is_empty()) && m.dup(&fp, Some(*id)) {
+                            cands.push((*id, k));
+                        }
+                    }
+                }
+                if cands.is_empty() {
+                    ctx.class("rules:edit_into_dup_unavailable");
+                    continue;
+                }
+                let (id, k) = cands[pick(*sel, cands.len())];
+                edit = Some((kind, id, k));
+            }
+            ROp::SetName(rs, n) => {
+                let Some(id) = resolve_rule(&m, rs) else {
+                    ctx.class("skipped_op");
+                    continue;
+                };
+                let name_s = format!("rule-{n}");
+                let exp = if m.rules.contains_key(&id) { Ok("valid") } else { Err("absent-rule") };
+                let r = call(e, &acct, "update_context_rule_name", args![e; id, SString::from_str(e, &name_s)]);
+                ctx.op(r.is_ok());
+                verdict("ctx_rules", "update_context_rule_name", exp, &r, &what)?;
+                if let Ok(v) = &r {
+                    let mr = m.rules.get_mut(&id).unwrap();
+                    mr.name = name_s;
+                    let cr: ContextRule = soroban_sdk::TryFromVal::try_from_val(e, v)
+                        .map_err(|_| violation("C20/ctx_rules.update_context_rule_name/wrong-return", format!("{what}: return value is not a ContextRule")))?;
+                    rule_matches(e, &u, &cr, id, mr).map_err(|er| violation("C20/ctx_rules.update_context_rule_name/wrong-return", format!("{what}: {er}")))?;
+                }
+            }
+            ROp::SetValidUntil(rs, vu) => {
+                let Some(id) = resolve_rule(&m, rs) else {
+                    ctx.class("skipped_op");
+                    continue;
+                };
+                let vu_abs = match vu {
+                    Vu::None => None,
+                    Vu::Rel(d) => Some((seq as i64 + *d as i64).max(0) as u32),
+                };
+                let exp = if !m.rules.contains_key(&id) {
+                    Err("absent-rule")
+                } else if vu_abs.map(|v| v < seq).unwrap_or(false) {
+                    Err("past-valid-until")
+                } else {
+                    Ok("valid")
+                };
+                let r = call(e, &acct, "update_context_rule_valid_until", args![e; id, vu_abs]);
+                ctx.op(r.is_ok());
+                verdict("ctx_rules", "update_context_rule_valid_until", exp, &r, &what)?;
+                if let Ok(v) = &r {
+                    let mr = m.rules.get_mut(&id).unwrap();
+                    mr.vu = vu_abs;
+                    let cr: ContextRule = soroban_sdk::TryFromVal::try_from_val(e, v)
+                        .map_err(|_| violation("C20/ctx_rules.update_context_rule_valid_until/wrong-return", format!("{what}: return value is not a ContextRule")))?;
+                    rule_matches(e, &u, &cr, id, mr).map_err(|er| violation("C20/ctx_rules.update_context_rule_valid_until/wrong-return", format!("{what}: {er}")))?;
+                }
+            }
+        }
+
+        if let Some((kind, id, key)) = edit {
+            let f = ["add_signer", "remove_signer", "add_policy", "remove_policy"][kind as usize];
+            let what = format!("{what} => {f}(rule {id}, key #{key})");
+            let exp: Result<&'static str, &'static str> = match m.rules.get(&id) {
+                None => Err("absent-rule"),
+                Some(r) => {
+                    let mut fp = r.fp();
+                    let (set, limit) = if kind < 2 { (&mut fp.1, MAX_SIGNERS) } else { (&mut fp.2, MAX_POLICIES) };
+                    let len_before = set.len();
+                    if kind % 2 == 0 {
+                        if !set.insert(key) {
+                            Err("already-member")
+                        } else if len_before + 1 > limit {
+                            Err(if kind == 0 { "limit-signers" } else { "limit-policies" })
+                        } else if m.dup(&fp, Some(id)) {
+                            Err("duplicate-rule")
+                        } else if len_before + 1 == limit {
+                            Ok("at-limit")
+                        } else {
+                            Ok("valid")
+                        }
+                    } else if !set.remove(&key) {
+                        Err("not-a-member")
+                    } else if fp.1.is_empty() && fp.2.is_empty() {
+                        Err("last-signer-and-no-policy")
+                    } else if m.dup(&fp, Some(id)) {
+                        Err("duplicate-rule")
+                    } else if len_before == 1 {
+                        Ok("last-of-its-kind")
+                    } else {
+                        Ok("valid")
+                    }
+                }
+            };
+            let r = if kind < 2 {
+                call(e, &acct, f, args![e; id, u.signers[key].clone()])
+            } else if kind == 2 {
+                call(e, &acct, f, args![e; id, u.policies[key].clone(), unit])
+            } else {
+                call(e, &acct, f, args![e; id, u.policies[key].clone()])
+            };
+            ctx.op(r.is_ok());
+            verdict("ctx_rules", f, exp, &r, &what)?;
+            if r.is_ok() {
+                let mr = m.rules.get_mut(&id).unwrap();
+                m.stale.push(mr.fp());
+                let set = if kind < 2 { &mut mr.signers } else { &mut mr.policies };
+                if kind % 2 == 0 {
+                    set.insert(key);
+                } else {
+                    set.remove(&key);
+                }
+                if let Ok(sit) = exp {
+                    if sit != "valid" {
+                        ctx.class(&format!("rules:{f}_ok:{sit}"));
+                    }
+                }
+            } else if let Err(why) = exp {
+                ctx.class(&format!("rules:{f}_refused:{why}"));
+                if why == "duplicate-rule" {
+                    dup_refused = true;
+                }
+            }
+        }
+        check_rules(e, &acct, &u, &m, &failing_ids(&m, last_removed, step), &what)?;
+    }
+    // final: every id ever handed out (and two past)
+    let all: Vec<u32> = (0..m.next_id + 2).collect();
+    check_rules(e, &acct, &u, &m, &all, "final")?;
+    if mid_then_succ {
+        ctx.class("rules:mid_removal_then_successor");
+    }
+    if mid_then_succ || (dup_refused && readd_ok) {
+        ctx.nontrivial = true;
+        ctx.class("nontrivial:ctx-rules");
+    }
+    Ok(())
+}
+
+
+// ================================================================== 2. bound tokens
+
+const B_UNI: usize = 8;
+
+#[derive(Clone, Debug, Serialize, Deserialize)]
+pub enum BatchN {
+    Small(u8),
+    /// size such that the count lands on the next bucket edge + d
+    ToEdge(i8),
+    /// size such that the count lands on the capacity + d (falls back to a small batch when too far)
+    ToMax(i8),
+    Abs(u16),
+}
+#[derive(Clone, Debug, Serialize, Deserialize)]
+pub enum BOp {
+    Bind(Sel),
+    Unbind(Sel),
+    /// `reuse` absent/removed universe keys first, then fresh ones; `dup` copies one entry over another;
+    /// `bound` overwrites one entry with an already bound token
+    Batch { n: BatchN, reuse: u8, dup: Option<(u16, u16)>, bound: Option<(u16, u16)> },
+}
+#[derive(Clone, Debug, Serialize, Deserialize)]
+pub struct BCase {
+    /// tokens bound during set-up (fillers)
+    pub base: u16,
+    pub ops: Vec<BOp>,
+}
+
+fn bop_strategy() -> BoxedStrategy<BOp> {
+    let n = prop_oneof![
+        6 => (0u8..7).prop_map(BatchN::Small),
+        4 => (-1i8..=1).prop_map(BatchN::ToEdge),
+        1 => (-1i8..=1).prop_map(BatchN::ToMax),
+        3 => proptest::sample::select(vec![199u16, 200, 201, 202, 100, 101]).prop_map(BatchN::Abs),
+    ];
+    prop_oneof![
+        7 => sel_for_add().prop_map(BOp::Bind),
+        9 => sel_for_remove().prop_map(BOp::Unbind),
+        4 => (n, 0u8..3, proptest::option::weighted(0.12, (any::<u16>(), any::<u16>())), proptest::option::weighted(0.12, (any::<u16>(), any::<u16>())))
+            .prop_map(|(n, reuse, dup, bound)| BOp::Batch { n, reuse, dup, bound }),
+    ]
+    .boxed()
+}
+fn bcase_strategy(tier: Tier) -> BoxedStrategy<BCase> {
+    // small registries with long histories; registries pre-filled to a bucket edge with short ones
+    let small = (prop_oneof![5 => 0u16..6, 2 => 6u16..40], proptest::collection::vec(bop_strategy(), 1..tier.pick(40usize, 50usize)));
+    let edge_base = prop_oneof![
+        4 => proptest::sample::select(vec![98u16, 99, 100, 101, 102]),
+        3 => proptest::sample::select(vec![198u16, 199, 200, 201, 202]),
+        1 => proptest::sample::select(vec![299u16, 300, 301]),
+    ];
+    let edge = (edge_base, proptest::collection::vec(bop_strategy(), 1..tier.pick(14usize, 30usize)));
+    prop_oneof![3 => small, 1 => edge].prop_map(|(base, ops)| BCase { base, ops }).boxed()
+}
+
+struct BinderH {
+    e: Env,
+    c: Address,
+    toks: Vec<Address>,
+    ids: BTreeMap<[u8; 32], usize>,
+    set: BTreeSet<usize>,
+    removed: Vec<usize>,
+    obs: Vec<usize>,
+    track: SwapTrack,
+    ghost: Address,
+    tick: usize,
+}
+impl BinderH {
+    fn new_tok(&mut self) -> usize {
+        let a = Address::generate(&self.e);
+        let id = self.toks.len();
+        self.ids.insert(akey(&a), id);
+        self.toks.push(a);
+        id
+    }
+    fn addr_vec(&self, ids: &[usize]) -> SVec<Address> {
+        let mut v = SVec::new(&self.e);
+        for i in ids {
+            v.push_back(self.toks[*i].clone());
+        }
+        v
+    }
+    fn dump(&self, idx: &[u32], keys: &[usize], what: &str) -> Result<(Vec<usize>, Vec<(bool, u32)>), Violation> {
+        let e = &self.e;
+        let mut iv: SVec<u32> = SVec::new(e);
+        for i in idx {
+            iv.push_back(*i);
+        }
+        let (by, ks) = call_t::<(SVec<Address>, SVec<(bool, u32)>)>(e, &self.c, "dump", args![e; iv, self.addr_vec(keys)]).map_err(|er| {
+            violation("C20/binder.get_token_by_index/in-range-failed", format!("{what}: bulk read of indices below the list length / of index lookups failed: {er}"))
+        })?;
+        let mut out = vec![];
+        for a in by.iter() {
+            let Some(id) = self.ids.get(&akey(&a)) else {
+                bail!("C20/binder.get_token_by_index/unknown-element", "{what}: get_token_by_index returned an address that was never bound")
+            };
+            out.push(*id);
+        }
+        Ok((out, ks.iter().collect()))
+    }
+    /// every getter against the model
+    fn check(&mut self, full: bool, last: bool, touched: Option<usize>, what: &str) -> R {
+        let e = self.e.clone();
+        let e = &e;
+        let linked = call_t::<SVec<Address>>(e, &self.c, "linked_tokens", args![e]).map_err(|er| violation("C20/binder.linked_tokens/failed", format!("{what}: {er}")))?;
+        let mut obs = Vec::with_capacity(linked.len() as usize);
+        let mut seen = BTreeSet::new();
+        for a in linked.iter() {
+            let Some(&id) = self.ids.get(&akey(&a)) else { bail!("C20/binder.linked_tokens/unknown-element", "{what}: linked_tokens holds an address that was never bound") };
+            ensure!(seen.insert(id), "C20/binder.linked_tokens/element-twice", "{what}: token #{id} appears twice in linked_tokens (len {})", linked.len());
+            obs.push(id);
+        }
+        if seen != self.set {
+            let missing: Vec<_> = self.set.difference(&seen).take(5).collect();
+            let extra: Vec<_> = seen.difference(&self.set).take(5).collect();
+            bail!("C20/binder.linked_tokens/set-differs", "{what}: linked_tokens has {} elements, model {}; missing {:?} extra {:?}", seen.len(), self.set.len(), missing, extra);
+        }
+        let n = obs.len();
+        let is_full = full || n <= 64;
+        let idx: Vec<u32> = if is_full { (0..n as u32).collect() } else { windows(n, TOKEN_BUCKET, self.track.hole) };
+        let keys: Vec<usize> = (0..B_UNI).collect();
+        let (by, ks) = self.dump(&idx, &keys, what)?;
+        ensure!(by.len() == idx.len(), "C20/binder.get_token_by_index/in-range-failed", "{what}: bulk read returned {} of {} entries", by.len(), idx.len());
+        let mut at: BTreeMap<u32, usize> = BTreeMap::new();
+        let mut pos_of: BTreeMap<usize, u32> = BTreeMap::new();
+        for (i, id) in idx.iter().zip(by.iter()) {
+            ensure!(self.set.contains(id), "C20/binder.get_token_by_index/not-in-set", "{what}: index {i} holds token #{id} which is not bound in the model");
+            if let Some(j) = pos_of.insert(*id, *i) {
+                bail!("C20/binder.get_token_by_index/element-twice", "{what}: token #{id} is enumerated at index {j} and at index {i} (count {n})");
+            }
+            at.insert(*i, *id);
+        }
+        let mut index_of: BTreeMap<usize, u32> = BTreeMap::new();
+        for (k, (b, ix)) in keys.iter().zip(ks.iter()) {
+            ensure!(*b == self.set.contains(k), "C20/binder.is_token_bound/wrong", "{what}: is_token_bound(token #{k}) = {b}, model {}", self.set.contains(k));
+            if *b {
+                ensure!((*ix as usize) < n, "C20/binder.get_token_index/out-of-range", "{what}: get_token_index(token #{k}) = {ix}, count {n}");
+                index_of.insert(*k, *ix);
+            }
+        }
+        // second phase: close the bijection for what the first phase did not cover
+        let extra_idx: Vec<u32> = index_of.values().copied().filter(|i| !at.contains_key(i)).collect::<BTreeSet<_>>().into_iter().collect();
+        let extra_keys: Vec<usize> = at.values().copied().filter(|k| !index_of.contains_key(k)).collect();
+        if !extra_idx.is_empty() || !extra_keys.is_empty() {
+            let (by2, ks2) = self.dump(&extra_idx, &extra_keys, what)?;
+            for (i, id) in extra_idx.iter().zip(by2.iter()) {
+                at.insert(*i, *id);
+            }
+            for (k, (b, ix)) in extra_keys.iter().zip(ks2.iter()) {
+                ensure!(*b, "C20/binder.is_token_bound/wrong", "{what}: is_token_bound(token #{k}) = false although get_token_by_index enumerates it");
+                index_of.insert(*k, *ix);
+            }
+        }
+        for (k, ix) in &index_of {
+            ensure!(
+                at.get(ix) == Some(k),
+                "C20/binder.get_token_index/not-inverse-of-get_token_by_index",
+                "{what}: get_token_index(token #{k}) = {ix} but get_token_by_index({ix}) = {:?} (count {n})",
+                at.get(ix)
+            );
+        }
+        for (i, id) in &at {
+            if let Some(ix) = index_of.get(id) {
+                ensure!(ix == i, "C20/binder.get_token_index/not-inverse-of-get_token_by_index", "{what}: get_token_by_index({i}) = token #{id} but get_token_index(token #{id}) = {ix}");
+            }
+        }
+        // one past the end
+        let r = call(e, &self.c, "get_token_by_index", args![e; n as u32]);
+        ensure!(r.is_err(), "C20/binder.get_token_by_index/one-past-accepted", "{what}: get_token_by_index({n}) answers although count = {n}");
+        // lookups of absent keys must fail: the key just touched and two rotating universe keys
+        // on ordinary steps, every absent universe key and every removed key on the last step
+        let absent: Vec<usize> = (0..B_UNI).filter(|k| !self.set.contains(k)).collect();
+        let mut probe: BTreeSet<usize> = BTreeSet::new();
+        if last {
+            probe.extend(absent.iter().copied());
+            probe.extend(self.removed.iter().copied().filter(|k| !self.set.contains(k)).take(12));
+        } else {
+            if let Some(k) = touched {
+                if !self.set.contains(&k) {
+                    probe.insert(k);
+                }
+            }
+            for d in 0..2 {
+                if !absent.is_empty() {
+                    probe.insert(absent[(self.tick + d) % absent.len()]);
+                }
+            }
+        }
+        self.tick += 1;
+        for k in probe {
+            let r = call(e, &self.c, "get_token_index", args![e; self.toks[k].clone()]);
+            ensure!(r.is_err(), "C20/binder.get_token_index/absent-found", "{what}: get_token_index(token #{k}) = {:?} although it is not bound", r);
+        }
+        let r = call(e, &self.c, "get_token_index", args![e; self.ghost.clone()]);
+        ensure!(r.is_err(), "C20/binder.get_token_index/absent-found", "{what}: get_token_index(never bound address) answers");
+        self.obs = obs;
+        self.track.observe(&self.obs);
+        Ok(())
+    }
+}
+
+pub fn run_binder(case: &BCase, ctx: &mut Ctx) -> R {
+    let e = new_env(100);
+    let c = e.register(Binder, ());
+    let ghost = Address::generate(&e);
+    let mut h = BinderH { e: e.clone(), c: c.clone(), toks: vec![], ids: BTreeMap::new(), set: BTreeSet::new(), removed: vec![], obs: vec![], track: SwapTrack::default(), ghost, tick: 0 };
+    for _ in 0..B_UNI {
+        h.new_tok();
+    }
+    // set-up: fillers through the batch entry point
+    let mut left = case.base as usize;
+    while left > 0 {
+        // capacity scenarios fill with full 200-token batches, ordinary cases with smaller ones
+        let k = left.min(if case.base as usize > 1000 { MAX_BATCH } else { 150 });
+        let ids: Vec<usize> = (0..k).map(|_| h.new_tok()).collect();
+        let r = call(&e, &c, "bind_tokens", args![&e; h.addr_vec(&ids)]);
+        ensure!(r.is_ok(), "C20/binder.bind_tokens/refused:prefill", "set-up batch of {k} fresh tokens refused at count {}: {:?}", h.set.len(), r);
+        h.set.extend(ids);
+        left -= k;
+    }
+    let big = case.base as usize > 1000;
+    h.check(false, false, None, "after set-up")?;
+    let n_ops = case.ops.len();
+    for (step, op) in case.ops.iter().enumerate() {
+        let what = format!("step {step} {:?}", op);
+        let absent: Vec<usize> = (0..B_UNI).filter(|k| !h.set.contains(k)).collect();
+        let removed: Vec<usize> = h.removed.iter().copied().filter(|k| !h.set.contains(k)).collect();
+        let n = h.set.len();
+        let mut touched: Option<usize> = None;
+        match op {
+            BOp::Bind(sel) => {
+                let k = match resolve(sel, &h.obs, h.track.hole, &absent, &removed, &[]) {
+                    Pick::Key(k) => k,
+                    Pick::Fresh => h.new_tok(),
+                    Pick::Nothing => {
+                        ctx.class("skipped_op");
+                        continue;
+                    }
+                };
+                touched = Some(k);
+                let exp = if h.set.contains(&k) {
+                    Err("already-bound")
+                } else if n >= MAX_TOKENS {
+                    Err("limit-tokens")
+                } else if n + 1 == MAX_TOKENS {
+                    Ok("at-limit")
+                } else if h.removed.contains(&k) {
+                    Ok("rebind-after-unbind")
+                } else {
+                    Ok("valid")
+                };
+                let r = call(&e, &c, "bind_token", args![&e; h.toks[k].clone()]);
+                ctx.op(r.is_ok());
+                verdict("binder", "bind_token", exp, &r, &what)?;
+                match exp {
+                    Ok(sit) => {
+                        h.set.insert(k);
+                        if sit != "valid" {
+                            ctx.class(&format!("binder:bind_ok:{sit}"));
+                        }
+                        if n % TOKEN_BUCKET == 0 && n > 0 {
+                            ctx.class("binder:bind_opens_bucket");
+                        }
+                    }
+                    Err(why) => {
+                        ctx.class(&format!("binder:bind_refused:{why}"));
+                    }
+                }
+            }
+            BOp::Unbind(sel) => {
+                let k = match resolve(sel, &h.obs, h.track.hole, &absent, &removed, &[]) {
+                    Pick::Key(k) => k,
+                    Pick::Fresh => h.new_tok(),
+                    Pick::Nothing => {
+                        ctx.class("skipped_op");
+                        continue;
+                    }
+                };
+                touched = Some(k);
+                let exp = if h.set.contains(&k) { Ok("valid") } else { Err("not-bound") };
+                let r = call(&e, &c, "unbind_token", args![&e; h.toks[k].clone()]);
+                ctx.op(r.is_ok());
+                verdict("binder", "unbind_token", exp, &r, &what)?;
+                if exp.is_ok() {
+                    h.set.remove(&k);
+                    if !h.removed.contains(&k) {
+                        h.removed.push(k);
+                    }
+                    let pos = h.obs.iter().position(|x| *x == k);
+                    h.track.removed(k, pos, n);
+                    if let Some(p) = pos {
+                        if p / TOKEN_BUCKET != (n - 1) / TOKEN_BUCKET {
+                            ctx.class("binder:unbind_swaps_across_buckets");
+                        }
+                        if p > 0 && p + 1 < n {
+                            ctx.class("binder:unbind_middle");
+                        }
+                    }
+                    if n == 1 {
+                        ctx.class("binder:unbind_only");
+                    }
+                    if (n - 1) % TOKEN_BUCKET == 0 && n > 1 {
+                        ctx.class("binder:unbind_empties_bucket");
+                    }
+                } else {
+                    ctx.class("binder:unbind_refused:not-bound");
+                }
+            }
+            BOp::Batch { n: bn, reuse, dup, bound } => {
+                let size = match bn {
+                    BatchN::Small(k) => *k as usize,
+                    BatchN::ToEdge(d) => (((n / TOKEN_BUCKET + 1) * TOKEN_BUCKET) as i64 + *d as i64 - n as i64).max(0) as usize,
+                    BatchN::ToMax(d) => {
+                        let s = MAX_TOKENS as i64 + *d as i64 - n as i64;
+                        if (0..=(MAX_BATCH as i64 + 1)).contains(&s) {
+                            s as usize
+                        } else {
+                            3
+                        }
+                    }
+                    BatchN::Abs(x) => *x as usize,
+                };
+                let mut list: Vec<usize> = vec![];
+                let mut pool: Vec<usize> = absent.iter().chain(removed.iter()).copied().collect::<BTreeSet<_>>().into_iter().collect();
+                for _ in 0..(*reuse as usize).min(size) {
+                    if let Some(k) = pool.pop() {
+                        list.push(k);
+                    }
+                }
+                while list.len() < size {
+                    let k = h.new_tok();
+                    list.push(k);
+                }
+                if let Some((i, j)) = dup {
+                    if size >= 2 {
+                        let (i, j) = (pick(*i, size), pick(*j, size));
+                        if i != j {
+                            list[j] = list[i];
+                        }
+                    }
+                }
+                if let Some((p, w)) = bound {
+                    if size >= 1 && !h.obs.is_empty() {
+                        list[pick(*p, size)] = h.obs[pick(*w, h.obs.len())];
+                    }
+                }
+                let distinct: BTreeSet<usize> = list.iter().copied().collect();
+                let exp = if size > MAX_BATCH {
+                    Err("batch-too-large")
+                } else if n + size > MAX_TOKENS {
+                    Err("limit-tokens")
+                } else if distinct.len() != list.len() {
+                    Err("duplicate-in-batch")
+                } else if distinct.iter().any(|k| h.set.contains(k)) {
+                    Err("already-bound")
+                } else if n + size == MAX_TOKENS && size > 0 {
+                    Ok("at-limit")
+                } else if size == MAX_BATCH {
+                    Ok("max-batch")
+                } else {
+                    Ok("valid")
+                };
+                let r = call(&e, &c, "bind_tokens", args![&e; h.addr_vec(&list)]);
+                ctx.op(r.is_ok());
+                verdict("binder", "bind_tokens", exp, &r, &format!("step {step} batch of {size} at count {n} ({:?})", op))?;
+                match exp {
+                    Ok(sit) => {
+                        h.set.extend(list.iter().copied());
+                        if sit != "valid" {
+                            ctx.class(&format!("binder:batch_ok:{sit}"));
+                        }
+                        if size > 0 && n / TOKEN_BUCKET != (n + size - 1) / TOKEN_BUCKET {
+                            ctx.class("binder:batch_crosses_bucket_edge");
+                        }
+                    }
+                    Err(why) => ctx.class(&format!("binder:batch_refused:{why}")),
+                }
+            }
+        }
+        let last = step + 1 == n_ops;
+        h.check(last && (!big || ctx.tier() == Tier::Thorough), last, touched, &what)?;
+        if h.track.hit {
+            ctx.class("binder:removed_the_swapped_in");
+            h.track.hit = false;
+            ctx.nontrivial = true;
+        }
+    }
+    if ctx.nontrivial {
+        ctx.class("nontrivial:binder");
+    }
+    Ok(())
+}
+
+// ================================================================== 3. documents
+
+const D_UNI: usize = 6;
+
+#[derive(Clone, Debug, Serialize, Deserialize)]
+pub enum Uri {
+    Short(u8),
+    Len(u16),
+}
+#[derive(Clone, Debug, Serialize, Deserialize)]
+pub enum DOp {
+    Set { name: Sel, uri: Uri, hash: u8 },
+    Remove(Sel),
+    Advance(u8),
+}
+#[derive(Clone, Debug, Serialize, Deserialize)]
+pub struct DCase {
+    pub base: u16,
+    pub ops: Vec<DOp>,
+}
+fn dop_strategy() -> BoxedStrategy<DOp> {
+    let uri = prop_oneof![
+        8 => (0u8..5).prop_map(Uri::Short),
+        3 => proptest::sample::select(vec![0u16, 1, 199, 200, 201, 202, 256, 1000]).prop_map(Uri::Len),
+    ];
+    let set_sel = prop_oneof![2 => sel_for_add(), 1 => sel_for_remove()];
+    prop_oneof![
+        9 => (set_sel, uri, 0u8..4).prop_map(|(name, uri, hash)| DOp::Set { name, uri, hash }),
+        8 => sel_for_remove().prop_map(DOp::Remove),
+        1 => (0u8..20).prop_map(DOp::Advance),
+    ]
+    .boxed()
+}
+fn dcase_strategy(tier: Tier) -> BoxedStrategy<DCase> {
+    let small = (prop_oneof![5 => 0u16..6, 2 => 6u16..30], proptest::collection::vec(dop_strategy(), 1..tier.pick(40usize, 50usize)));
+    let edge_base = prop_oneof![5 => proptest::sample::select(vec![48u16, 49, 50, 51, 52]), 1 => proptest::sample::select(vec![99u16, 100, 101])];
+    let edge = (edge_base, proptest::collection::vec(dop_strategy(), 1..tier.pick(14usize, 30usize)));
+    prop_oneof![3 => small, 1 => edge].prop_map(|(base, ops)| DCase { base, ops }).boxed()
+}
+
+#[derive(Clone, Debug, PartialEq)]
+struct MDoc {
+    uri: String,
+    hash: [u8; 32],
+    ts: u64,
+}
+fn doc_name(id: usize) -> [u8; 32] {
+    let mut b = [0u8; 32];
+    b[0] = 0xD0;
+    b[4..8].copy_from_slice(&(id as u32).to_be_bytes());
+    b
+}
+/// the hash embeds the name id, so two names never hold equal documents
+fn doc_hash(id: usize, h: u8) -> [u8; 32] {
+    let mut b = [0u8; 32];
+    b[0] = h;
+    b[1] = 0xAA;
+    b[4..8].copy_from_slice(&(id as u32).to_be_bytes());
+    b
+}
+fn uri_string(u: &Uri) -> String {
+    match u {
+        Uri::Short(k) => format!("https://docs.example/{k}"),
+        Uri::Len(n) => "a".repeat(*n as usize),
+    }
+}
+
+struct DocsH {
+    e: Env,
+    c: Address,
+    /// name id -> name bytes are derived (doc_name); ids: 0..D_UNI universe, then fillers / fresh
+    next_name: usize,
+    map: BTreeMap<usize, MDoc>,
+    removed: Vec<usize>,
+    obs: Vec<usize>,
+    track: SwapTrack,
+    tick: usize,
+}
+impl DocsH {
+    fn name_id(b: &BytesN<32>) -> Option<usize> {
+        let a = b.to_array();
+        let id = u32::from_be_bytes([a[4], a[5], a[6], a[7]]) as usize;
+        if a == doc_name(id) {
+            Some(id)
+        } else {
+            None
+        }
+    }
+    fn doc_eq(&self, d: &Document, m: &MDoc) -> bool {
+        d.timestamp == m.ts && d.document_hash.to_array() == m.hash && d.uri == SString::from_str(&self.e, &m.uri)
+    }
+    fn describe(d: &Document) -> String {
+        format!("(uri len {}, hash {:02x}{:02x}.., ts {})", d.uri.len(), d.document_hash.to_array()[0], d.document_hash.to_array()[7], d.timestamp)
+    }
+    fn check(&mut self, full: bool, last: bool, touched: Option<usize>, what: &str) -> R {
+        let e = self.e.clone();
+        let e = &e;
+        let n = self.map.len();
+        let is_full = full || n <= 64;
+        let win = windows(n, DOC_BUCKET, self.track.hole);
+        let idx: Vec<u32> = if is_full { (0..n as u32).collect() } else { win.clone() };
+        let mut iv: SVec<u32> = SVec::new(e);
+        for i in &idx {
+            iv.push_back(*i);
+        }
+        let mut bv: SVec<u32> = SVec::new(e);
+        for b in 0..=(n / DOC_BUCKET + 1) as u32 {
+            bv.push_back(b);
+        }
+        type Entry = (BytesN<32>, Document);
+        let (count, by, buckets) = call_t::<(u32, SVec<Entry>, SVec<SVec<Entry>>)>(e, &self.c, "dump", args![e; iv, bv])
+            .map_err(|er| violation("C20/docs.get_document_by_index/in-range-failed", format!("{what}: bulk read (count, in-range indices, buckets) failed: {er}")))?;
+        ensure!(count as usize == n, "C20/docs.get_document_count/wrong", "{what}: get_document_count = {count}, model {n}");
+        // paged getter: union over all buckets (one past the last used one included) = the map, each entry once
+        let mut obs = vec![];
+        let mut seen = BTreeSet::new();
+        for (bi, b) in buckets.iter().enumerate() {
+            for (name, d) in b.iter() {
+                let Some(id) = Self::name_id(&name) else { bail!("C20/docs.get_documents/unknown-element", "{what}: bucket {bi} holds a name that was never set") };
+                ensure!(seen.insert(id), "C20/docs.get_documents/element-twice", "{what}: document #{id} appears twice in the buckets (second time in bucket {bi})");
+                let Some(m) = self.map.get(&id) else { bail!("C20/docs.get_documents/set-differs", "{what}: bucket {bi} holds document #{id} which the model does not hold") };
+                ensure!(self.doc_eq(&d, m), "C20/docs.get_documents/wrong-document", "{what}: bucket {bi}: document #{id} = {}, model {:?}", Self::describe(&d), (m.uri.len(), m.hash[0], m.ts));
+                obs.push(id);
+            }
+        }
+        ensure!(seen.len() == n, "C20/docs.get_documents/set-differs", "{what}: the buckets hold {} documents, model {n}", seen.len());
+        // index getter
+        ensure!(by.len() as usize == idx.len(), "C20/docs.get_document_by_index/in-range-failed", "{what}: {} of {} in-range indices answered", by.len(), idx.len());
+        let mut seen_i: BTreeMap<usize, u32> = BTreeMap::new();
+        let mut probe: BTreeSet<usize> = (0..D_UNI).collect();
+        for (i, (name, d)) in idx.iter().zip(by.iter()) {
+            let Some(id) = Self::name_id(&name) else { bail!("C20/docs.get_document_by_index/unknown-element", "{what}: index {i} holds a name that was never set") };
+            let Some(m) = self.map.get(&id) else { bail!("C20/docs.get_document_by_index/not-in-map", "{what}: index {i} holds document #{id} which the model does not hold") };
+            if let Some(j) = seen_i.insert(id, *i) {
+                bail!("C20/docs.get_document_by_index/element-twice", "{what}: document #{id} is enumerated at index {j} and at index {i} (count {n})");
+            }
+            ensure!(self.doc_eq(&d, m), "C20/docs.get_document_by_index/wrong-document", "{what}: index {i}: document #{id} = {}, model {:?}", Self::describe(&d), (m.uri.len(), m.hash[0], m.ts));
+            if full || n <= 16 || win.contains(i) {
+                probe.insert(id);
+            }
+        }
+        // name getter (through the name -> index map): universe keys, the documents at the sampled positions.
+        // Names the model holds are read in one bulk invocation; only if that fails are they re-read one by one
+        // to name the culprit. Names the model does not hold must fail, each in its own invocation.
+        let present: Vec<usize> = probe.iter().copied().filter(|id| self.map.contains_key(id)).collect();
+        let mut nv: SVec<BytesN<32>> = SVec::new(e);
+        for id in &present {
+            nv.push_back(BytesN::from_array(e, &doc_name(*id)));
+        }
+        match call_t::<SVec<Document>>(e, &self.c, "get_docs", args![e; nv]) {
+            Ok(ds) => {
+                ensure!(ds.len() as usize == present.len(), "C20/docs.get_document/present-but-failed", "{what}: bulk get_document answered {} of {}", ds.len(), present.len());
+                for (id, d) in present.iter().zip(ds.iter()) {
+                    let m = &self.map[id];
+                    ensure!(self.doc_eq(&d, m), "C20/docs.get_document/wrong-document", "{what}: get_document(#{id}) = {}, model {:?}", Self::describe(&d), (m.uri.len(), m.hash[0], m.ts));
+                }
+            }
+            Err(_) => {
+                for id in &present {
+                    let r = call_t::<Document>(e, &self.c, "get_document", args![e; BytesN::from_array(e, &doc_name(*id))]);
+                    if let Err(er) = r {
+                        bail!("C20/docs.get_document/present-but-failed", "{what}: get_document(#{id}) failed although the document is attached (index {:?}, count {n}): {er}", seen_i.get(id));
+                    }
+                }
+                bail!("C20/docs.get_document/present-but-failed", "{what}: bulk get_document failed but every single read worked");
+            }
+        }
+        let absent_all: Vec<usize> = (0..D_UNI).filter(|id| !self.map.contains_key(id)).collect();
+        let mut must_fail: BTreeSet<usize> = BTreeSet::new();
+        if last {
+            must_fail.extend(absent_all.iter().copied());
+            must_fail.extend(self.removed.iter().copied().filter(|k| !self.map.contains_key(k)).take(12));
+        } else {
+            if let Some(k) = touched {
+                if !self.map.contains_key(&k) {
+                    must_fail.insert(k);
+                }
+            }
+            for d in 0..2 {
+                if !absent_all.is_empty() {
+                    must_fail.insert(absent_all[(self.tick + d) % absent_all.len()]);
+                }
+            }
+        }
+        self.tick += 1;
+        for id in must_fail {
+            let r = call_t::<Document>(e, &self.c, "get_document", args![e; BytesN::from_array(e, &doc_name(id))]);
+            if let Ok(d) = r {
+                bail!("C20/docs.get_document/absent-found", "{what}: get_document(#{id}) = {} although the model holds no such document", Self::describe(&d));
+            }
+        }
+        let r = call(e, &self.c, "get_document", args![e; BytesN::from_array(e, &[0xEEu8; 32])]);
+        ensure!(r.is_err(), "C20/docs.get_document/absent-found", "{what}: get_document(never used name) answers");
+        let r = call(e, &self.c, "get_document_by_index", args![e; n as u32]);
+        ensure!(r.is_err(), "C20/docs.get_document_by_index/one-past-accepted", "{what}: get_document_by_index({n}) answers although count = {n}");
+        let cnt = call_t::<u32>(e, &self.c, "get_document_count", args![e]).map_err(|er| violation("C20/docs.get_document_count/failed", er))?;
+        ensure!(cnt as usize == n, "C20/docs.get_document_count/wrong", "{what}: get_document_count = {cnt}, model {n}");
+        self.obs = obs;
+        self.track.observe(&self.obs);
+        Ok(())
+    }
+}
+
+pub fn run_docs(case: &DCase, ctx: &mut Ctx) -> R {
+    let e = new_env(100);
+    let c = e.register(Docs, ());
+    let mut h = DocsH { e: e.clone(), c: c.clone(), next_name: D_UNI, map: BTreeMap::new(), removed: vec![], obs: vec![], track: SwapTrack::default(), tick: 0 };
+    // set-up: fillers attached with the library function inside one contract frame
+    let base = case.base as usize;
+    if base > 0 {
+        let ts = e.ledger().timestamp();
+        let uri = "https://docs.example/filler".to_string();
+        let suri = SString::from_str(&e, &uri);
+        let first = h.next_name;
+        e.as_contract(&c, || {
+            for id in first..first + base {
+                dm::set_document(&e, &BytesN::from_array(&e, &doc_name(id)), &suri, &BytesN::from_array(&e, &doc_hash(id, 9)));
+            }
+        });
+        for id in first..first + base {
+            h.map.insert(id, MDoc { uri: uri.clone(), hash: doc_hash(id, 9), ts });
+        }
+        h.next_name += base;
+    }
+    let big = base > 500;
+    h.check(false, false, None, "after set-up")?;
+    let n_ops = case.ops.len();
+    for (step, op) in case.ops.iter().enumerate() {
+        let what = format!("step {step} {:?}", op);
+        let absent: Vec<usize> = (0..D_UNI).filter(|k| !h.map.contains_key(k)).collect();
+        let removed: Vec<usize> = h.removed.iter().copied().filter(|k| !h.map.contains_key(k)).collect();
+        let n = h.map.len();
+        let mut touched: Option<usize> = None;
+        let resolve_name = |h: &mut DocsH, sel: &Sel| -> Option<usize> {
+            match resolve(sel, &h.obs, h.track.hole, &absent, &removed, &[]) {
+                Pick::Key(k) => Some(k),
+                Pick::Fresh => {
+                    h.next_name += 1;
+                    Some(h.next_name - 1)
+                }
+                Pick::Nothing => None,
+            }
+        };
+        match op {
+            DOp::Advance(k) => envx::advance(&e, *k as u32),
+            DOp::Set { name, uri, hash } => {
+                let Some(k) = resolve_name(&mut h, name) else {
+                    ctx.class("skipped_op");
+                    continue;
+                };
+                touched = Some(k);
+                let us = uri_string(uri);
+                let present = h.map.contains_key(&k);
+                let exp = if us.len() > MAX_URI {
+                    Err("uri-too-long")
+                } else if !present && n >= MAX_DOCS {
+                    Err("limit-documents")
+                } else if present {
+                    Ok("update-in-place")
+                } else if n + 1 == MAX_DOCS {
+                    Ok("at-limit")
+                } else if us.len() == MAX_URI {
+                    Ok("uri-at-limit")
+                } else if h.removed.contains(&k) {
+                    Ok("reattach-after-removal")
+                } else {
+                    Ok("valid")
+                };
+                let ts = e.ledger().timestamp();
+                let r = call(&e, &c, "set_document", args![&e; BytesN::from_array(&e, &doc_name(k)), SString::from_str(&e, &us), BytesN::from_array(&e, &doc_hash(k, *hash))]);
+                ctx.op(r.is_ok());
+                verdict("docs", "set_document", exp, &r, &format!("step {step} set_document(#{k}, uri len {}) at count {n} ({:?})", us.len(), name))?;
+                match exp {
+                    Ok(sit) => {
+                        h.map.insert(k, MDoc { uri: us.clone(), hash: doc_hash(k, *hash), ts });
+                        if sit != "valid" {
+                            ctx.class(&format!("docs:set_ok:{sit}"));
+                        }
+                        if us.len() == MAX_URI {
+                            ctx.class("docs:set_ok:uri-200");
+                        }
+                        if !present && n % DOC_BUCKET == 0 && n > 0 {
+                            ctx.class("docs:set_opens_bucket");
+                        }
+                    }
+                    Err(why) => ctx.class(&format!("docs:set_refused:{why}")),
+                }
+            }
+            DOp::Remove(sel) => {
+                let Some(k) = resolve_name(&mut h, sel) else {
+                    ctx.class("skipped_op");
+                    continue;
+                };
+                touched = Some(k);
+                let exp = if h.map.contains_key(&k) { Ok("valid") } else { Err("absent") };
+                let r = call(&e, &c, "remove_document", args![&e; BytesN::from_array(&e, &doc_name(k))]);
+                ctx.op(r.is_ok());
+                verdict("docs", "remove_document", exp, &r, &what)?;
+                if exp.is_ok() {
+                    h.map.remove(&k);
+                    if !h.removed.contains(&k) {
+                        h.removed.push(k);
+                    }
+                    let pos = h.obs.iter().position(|x| *x == k);
+                    h.track.removed(k, pos, n);
+                    if let Some(p) = pos {
+                        if p / DOC_BUCKET != (n - 1) / DOC_BUCKET {
+                            ctx.class("docs:remove_swaps_across_buckets");
+                        }
+                        if p > 0 && p + 1 < n {
+                            ctx.class("docs:remove_middle");
+                        }
+                    }
+                    if n == 1 {
+                        ctx.class("docs:remove_only");
+                    }
+                    if (n - 1) % DOC_BUCKET == 0 && n > 1 {
+                        ctx.class("docs:remove_empties_bucket");
+                    }
+                } else {
+                    ctx.class("docs:remove_refused:absent");
+                }
+            }
+        }
+        let last = step + 1 == n_ops;
+        h.check(last && (!big || ctx.tier() == Tier::Thorough), last, touched, &what)?;
+        if h.track.hit {
+            ctx.class("docs:removed_the_swapped_in");
+            h.track.hit = false;
+            ctx.nontrivial = true;
+        }
+    }
+    if ctx.nontrivial {
+        ctx.class("nontrivial:docs");
+    }
+    Ok(())
+}
+
+// ================================================================== 4. compliance modules
+
+const M_UNI: usize = 6;
+const HOOKS: usize = 5;
+fn hook(i: usize) -> ComplianceHook {
+    match i {
+        0 => ComplianceHook::Transferred,
+        1 => ComplianceHook::Created,
+        2 => ComplianceHook::Destroyed,
+        3 => ComplianceHook::CanTransfer,
+        _ => ComplianceHook::CanCreate,
+    }
+}
+const HOOK_FN: [&str; HOOKS] = ["transferred", "created", "destroyed", "can_transfer", "can_create"];
+
+#[derive(Clone, Debug, Serialize, Deserialize)]
+pub enum MOp {
+    Add(u8, Sel),
+    Remove(u8, Sel),
+    /// run all five hooks once and compare the set of modules that were called
+    RunHooks,
+}
+#[derive(Clone, Debug, Serialize, Deserialize)]
+pub struct MCase {
+    /// (hook, number of filler modules registered during set-up)
+    pub prefill: Vec<(u8, u8)>,
+    pub ops: Vec<MOp>,
+}
+fn mcase_strategy(tier: Tier) -> BoxedStrategy<MCase> {
+    fn ops(hooks: std::ops::Range<u8>, max: usize) -> BoxedStrategy<Vec<MOp>> {
+        let op = prop_oneof![
+            12 => (hooks.clone(), sel_for_add()).prop_map(|(h, s)| MOp::Add(h, s)),
+            9 => (hooks.clone(), sel_for_remove()).prop_map(|(h, s)| MOp::Remove(h, s)),
+            1 => Just(MOp::RunHooks),
+        ];
+        proptest::collection::vec(op, 1..max).boxed()
+    }
+    let max = tier.pick(40usize, 50usize);
+    // few hooks -> longer lists per hook; all hooks -> cross-hook confusion
+    let general = prop_oneof![2 => ops(0..2, max), 1 => ops(0..HOOKS as u8, max), 1 => ops(3..5, max)].prop_map(|ops| MCase { prefill: vec![], ops });
+    let cap = (0u8..HOOKS as u8, 17u8..=20, proptest::option::of((0u8..HOOKS as u8, 0u8..6)), 0u8..2)
+        .prop_flat_map(move |(h, n, other, spread)| {
+            let hooks = if spread == 0 { h..h + 1 } else { 0..HOOKS as u8 };
+            ops(hooks, tier.pick(16usize, 30usize)).prop_map(move |ops| {
+                let mut prefill = vec![(h, n)];
+                if let Some((h2, n2)) = other {
+                    if h2 != h {
+                        prefill.push((h2, n2));
+                    }
+                }
+                MCase { prefill, ops }
+            })
+        });
+    prop_oneof![4 => general, 1 => cap].boxed()
+}
+
+struct CompH {
+    e: Env,
+    c: Address,
+    mods: Vec<Address>,
+    ids: BTreeMap<[u8; 32], usize>,
+    reg: Vec<BTreeSet<usize>>,
+    removed: Vec<Vec<usize>>,
+    obs: Vec<Vec<usize>>,
+    track: Vec<SwapTrack>,
+}
+impl CompH {
+    fn new_mod(&mut self) -> usize {
+        let a = self.e.register(MockModule, ());
+        let id = self.mods.len();
+        self.ids.insert(akey(&a), id);
+        self.mods.push(a);
+        id
+    }
+    fn to_ids(&self, list: &SVec<Address>, h: usize, getter: &str, what: &str) -> Result<Vec<usize>, Violation> {
+        let mut out = vec![];
+        let mut seen = BTreeSet::new();
+        for a in list.iter() {
+            let Some(&id) = self.ids.get(&akey(&a)) else {
+                bail!(format!("C20/compliance.{getter}/unknown-element"), "{what}: hook {h} lists an address that was never registered")
+            };
+            ensure!(seen.insert(id), format!("C20/compliance.{getter}/element-twice"), "{what}: hook {h} lists module #{id} twice");
+            out.push(id);
+        }
+        ensure!(seen == self.reg[h], format!("C20/compliance.{getter}/set-differs"), "{what}: hook {h} ({}) lists {:?}, model {:?}", HOOK_FN[h], seen, self.reg[h]);
+        Ok(out)
+    }
+    fn check(&mut self, touched: Option<(usize, usize)>, what: &str) -> R {
+        let e = self.e.clone();
+        let e = &e;
+        let mut hv: SVec<ComplianceHook> = SVec::new(e);
+        for h in 0..HOOKS {
+            hv.push_back(hook(h));
+        }
+        let mut mv: SVec<Address> = SVec::new(e);
+        for m in &self.mods {
+            mv.push_back(m.clone());
+        }
+        let d = call_t::<SVec<(SVec<Address>, SVec<bool>)>>(e, &self.c, "dump", args![e; hv, mv]).map_err(|er| violation("C20/compliance.get_modules_for_hook/failed", format!("{what}: bulk read failed: {er}")))?;
+        ensure!(d.len() as usize == HOOKS, "C20/compliance.get_modules_for_hook/failed", "{what}: bulk read returned {} hooks", d.len());
+        for (h, (list, flags)) in d.iter().enumerate() {
+            let ids = self.to_ids(&list, h, "get_modules_for_hook", what)?;
+            for (m, f) in flags.iter().enumerate() {
+                ensure!(f == self.reg[h].contains(&m), "C20/compliance.is_module_registered/wrong", "{what}: is_module_registered({}, module #{m}) = {f}, model {}", HOOK_FN[h], !f);
+            }
+            self.obs[h] = ids;
+            let o = self.obs[h].clone();
+            self.track[h].observe(&o);
+        }
+        // the plain entry points for the hook / module just touched
+        if let Some((h, m)) = touched {
+            let list = call_t::<SVec<Address>>(e, &self.c, "get_modules_for_hook", args![e; hook(h)]).map_err(|er| violation("C20/compliance.get_modules_for_hook/failed", format!("{what}: {er}")))?;
+            self.to_ids(&list, h, "get_modules_for_hook", what)?;
+            for hh in 0..HOOKS {
+                let f = call_t::<bool>(e, &self.c, "is_module_registered", args![e; hook(hh), self.mods[m].clone()]).map_err(|er| violation("C20/compliance.is_module_registered/failed", format!("{what}: {er}")))?;
+                ensure!(f == self.reg[hh].contains(&m), "C20/compliance.is_module_registered/wrong", "{what}: is_module_registered({}, module #{m}) = {f}, model {}", HOOK_FN[hh], !f);
+            }
+        }
+        Ok(())
+    }
+    fn calls(&self, what: &str) -> Result<Vec<Vec<u32>>, Violation> {
+        let e = &self.e;
+        let mut out = vec![];
+        for m in &self.mods {
+            let v = call_t::<SVec<u32>>(e, m, "calls", args![e]).map_err(|er| violation("C20/compliance.hooks/mock-module-failed", format!("{what}: {er}")))?;
+            out.push(v.iter().collect());
+        }
+        Ok(out)
+    }
+    /// the five hook executors consult exactly the registered set (each module once)
+    fn run_hooks(&self, token: &Address, a: &Address, b: &Address, what: &str) -> R {
+        let e = &self.e;
+        let before = self.calls(what)?;
+        let amt = 1i128;
+        let rs = [
+            call(e, &self.c, "transferred", args![e; a.clone(), b.clone(), amt, token.clone()]),
+            call(e, &self.c, "created", args![e; b.clone(), amt, token.clone()]),
+            call(e, &self.c, "destroyed", args![e; a.clone(), amt, token.clone()]),
+            call(e, &self.c, "can_transfer", args![e; a.clone(), b.clone(), amt, token.clone()]),
+            call(e, &self.c, "can_create", args![e; b.clone(), amt, token.clone()]),
+        ];
+        for (h, r) in rs.iter().enumerate() {
+            ensure!(r.is_ok(), format!("C20/compliance.{}/hook-run-failed", HOOK_FN[h]), "{what}: {} failed with accept-all modules: {:?}", HOOK_FN[h], r);
+        }
+        let after = self.calls(what)?;
+        for m in 0..self.mods.len() {
+            for h in 0..HOOKS {
+                let delta = after[m][h] - before[m][h];
+                let want = if self.reg[h].contains(&m) { 1 } else { 0 };
+                ensure!(
+                    delta == want,
+                    format!("C20/compliance.{}/executed-set-differs", HOOK_FN[h]),
+                    "{what}: {} called module #{m} {delta} time(s); registered under that hook in the model: {}",
+                    HOOK_FN[h],
+                    want == 1
+                );
+            }
+        }
+        Ok(())
+    }
+}
+
+pub fn run_compliance(case: &MCase, ctx: &mut Ctx) -> R {
+    let e = new_env(100);
+    let c = e.register(ComplianceReg, ());
+    let mut h = CompH {
+        e: e.clone(),
+        c: c.clone(),
+        mods: vec![],
+        ids: BTreeMap::new(),
+        reg: vec![BTreeSet::new(); HOOKS],
+        removed: vec![vec![]; HOOKS],
+        obs: vec![vec![]; HOOKS],
+        track: vec![SwapTrack::default(); HOOKS],
+    };
+    for _ in 0..M_UNI {
+        h.new_mod();
+    }
+    let token = Address::generate(&e);
+    let (a, b) = (Address::generate(&e), Address::generate(&e));
+    e.mock_all_auths(); // the state-changing hooks require the bound token's authorization; not C20's subject
+    let r = call(&e, &c, "bind_token", args![&e; token.clone()]);
+    ensure!(r.is_ok(), "C20/compliance.setup/bind-token", "set-up bind_token failed: {:?}", r);
+    let want_fillers = case.prefill.iter().map(|(_, n)| *n as usize).max().unwrap_or(0);
+    for _ in 0..want_fillers {
+        h.new_mod();
+    }
+    for (hk, n) in &case.prefill {
+        let hk = *hk as usize % HOOKS;
+        for j in 0..(*n as usize).min(MAX_MODULES) {
+            let m = M_UNI + j;
+            if h.reg[hk].contains(&m) {
+                continue;
+            }
+            let r = call(&e, &c, "add_module_to", args![&e; hook(hk), h.mods[m].clone()]);
+            ensure!(r.is_ok(), "C20/compliance.add_module_to/refused:prefill", "set-up registration {j} for hook {hk} refused: {:?}", r);
+            h.reg[hk].insert(m);
+        }
+    }
+    h.check(None, "after set-up")?;
+    for (step, op) in case.ops.iter().enumerate() {
+        let what = format!("step {step} {:?}", op);
+        let (hk, sel, is_add) = match op {
+            MOp::RunHooks => {
+                h.run_hooks(&token, &a, &b, &what)?;
+                ctx.class("compliance:run_hooks");
+                continue;
+            }
+            MOp::Add(hk, sel) => (*hk as usize % HOOKS, sel, true),
+            MOp::Remove(hk, sel) => (*hk as usize % HOOKS, sel, false),
+        };
+        let absent: Vec<usize> = (0..M_UNI).filter(|k| !h.reg[hk].contains(k)).collect();
+        let removed: Vec<usize> = h.removed[hk].iter().copied().filter(|k| !h.reg[hk].contains(k)).collect();
+        let elsewhere: Vec<usize> = (0..h.mods.len()).filter(|k| !h.reg[hk].contains(k) && (0..HOOKS).any(|o| o != hk && h.reg[o].contains(k))).collect();
+        let n = h.reg[hk].len();
+        let m = match resolve(sel, &h.obs[hk], h.track[hk].hole, &absent, &removed, &elsewhere) {
+            Pick::Key(k) => k,
+            Pick::Fresh => {
+                // a not yet registered filler if there is one, else a brand-new module
+                match (M_UNI..h.mods.len()).find(|k| (0..HOOKS).all(|o| !h.reg[o].contains(k))) {
+                    Some(k) => k,
+                    None => h.new_mod(),
+                }
+            }
+            Pick::Nothing => {
+                ctx.class("skipped_op");
+                continue;
+            }
+        };
+        let present = h.reg[hk].contains(&m);
+        let on_other = (0..HOOKS).any(|o| o != hk && h.reg[o].contains(&m));
+        if is_add {
+            let exp = if present {
+                Err("already-registered")
+            } else if n >= MAX_MODULES {
+                Err("limit-modules")
+            } else if n + 1 == MAX_MODULES {
+                Ok("at-limit")
+            } else if h.removed[hk].contains(&m) {
+                Ok("re-register-after-removal")
+            } else {
+                Ok("valid")
+            };
+            let r = call(&e, &c, "add_module_to", args![&e; hook(hk), h.mods[m].clone()]);
+            ctx.op(r.is_ok());
+            verdict("compliance", "add_module_to", exp, &r, &format!("{what} => add module #{m} to {} holding {n}", HOOK_FN[hk]))?;
+            match exp {
+                Ok(sit) => {
+                    h.reg[hk].insert(m);
+                    if sit != "valid" {
+                        ctx.class(&format!("compliance:add_ok:{sit}"));
+                    }
+                    if on_other {
+                        ctx.class("compliance:add_ok:registered-under-other-hook-too");
+                    }
+                }
+                Err(why) => ctx.class(&format!("compliance:add_refused:{why}")),
+            }
+        } else {
+            let exp = if present { Ok("valid") } else { Err("not-registered") };
+            let r = call(&e, &c, "remove_module_from", args![&e; hook(hk), h.mods[m].clone()]);
+            ctx.op(r.is_ok());
+            verdict("compliance", "remove_module_from", exp, &r, &format!("{what} => remove module #{m} from {} holding {n}", HOOK_FN[hk]))?;
+            if exp.is_ok() {
+                h.reg[hk].remove(&m);
+                if !h.removed[hk].contains(&m) {
+                    h.removed[hk].push(m);
+                }
+                let pos = h.obs[hk].iter().position(|x| *x == m);
+                h.track[hk].removed(m, pos, n);
+                if let Some(p) = pos {
+                    if p > 0 && p + 1 < n {
+                        ctx.class("compliance:remove_middle");
+                    }
+                }
+                if n == 1 {
+                    ctx.class("compliance:remove_only");
+                }
+                if on_other {
+                    ctx.class("compliance:remove_ok:stays-under-other-hook");
+                }
+            } else {
+                ctx.class(if on_other { "compliance:remove_refused:registered-under-other-hook-only" } else { "compliance:remove_refused:not-registered" });
+            }
+        }
+        h.check(Some((hk, m)), &what)?;
+        if h.track[hk].hit {
+            ctx.class("compliance:removed_the_moved_in");
+            h.track[hk].hit = false;
+            ctx.nontrivial = true;
+        }
+    }
+    h.run_hooks(&token, &a, &b, "final")?;
+    if ctx.nontrivial {
+        ctx.class("nontrivial:compliance");
+    }
+    Ok(())
+}
+
+// ================================================================== capacity scenarios of the two big bucketed registries
+
+fn cap_binder_case(slab: u64) -> BCase {
+    let small = |k| BOp::Batch { n: BatchN::Small(k), reuse: 0, dup: None, bound: None };
+    match slab {
+        // 9 999 -> single binds at / past the limit, swap-remove in a full registry, batch at / past the limit
+        0 => BCase {
+            base: (MAX_TOKENS - 1) as u16,
+            ops: vec![
+                BOp::Bind(Sel::Fresh),
+                BOp::Bind(Sel::Fresh),
+                small(1),
+                BOp::Unbind(Sel::Mid(30000)),
+                BOp::Unbind(Sel::Swapped),
+                small(3),
+                small(2),
+                BOp::Bind(Sel::Fresh),
+                BOp::Bind(Sel::Removed(0)),
+            ],
+        },
+        // 9 800 -> batch edges against the capacity
+        _ => BCase {
+            base: (MAX_TOKENS - MAX_BATCH) as u16,
+            ops: vec![
+                BOp::Batch { n: BatchN::Abs(201), reuse: 0, dup: None, bound: None },
+                BOp::Bind(Sel::Absent(0)),
+                BOp::Batch { n: BatchN::Abs(200), reuse: 0, dup: None, bound: None },
+                BOp::Batch { n: BatchN::ToMax(1), reuse: 0, dup: None, bound: None },
+                BOp::Batch { n: BatchN::ToMax(0), reuse: 1, dup: None, bound: None },
+                BOp::Bind(Sel::Fresh),
+                BOp::Unbind(Sel::First),
+                BOp::Unbind(Sel::Last),
+                small(3),
+                small(2),
+                small(1),
+            ],
+        },
+    }
+}
+fn cap_docs_case(slab: u64) -> DCase {
+    let set = |name, uri| DOp::Set { name, uri, hash: 1 };
+    match slab {
+        0 => DCase {
+            base: (MAX_DOCS - 1) as u16,
+            ops: vec![
+                set(Sel::Fresh, Uri::Short(1)),
+                set(Sel::Fresh, Uri::Short(2)),
+                set(Sel::At(40000), Uri::Len(200)),
+                set(Sel::Absent(0), Uri::Short(0)),
+                DOp::Remove(Sel::Mid(20000)),
+                DOp::Remove(Sel::Swapped),
+                set(Sel::Absent(0), Uri::Short(3)),
+                set(Sel::Removed(0), Uri::Len(201)),
+                set(Sel::Removed(0), Uri::Short(3)),
+                set(Sel::Fresh, Uri::Short(3)),
+                set(Sel::Last, Uri::Short(4)),
+            ],
+        },
+        _ => DCase {
+            base: (MAX_DOCS - 2) as u16,
+            ops: vec![
+                set(Sel::Absent(0), Uri::Short(1)),
+                DOp::Remove(Sel::First),
+                set(Sel::Absent(0), Uri::Short(1)),
+                set(Sel::Absent(0), Uri::Len(200)),
+                set(Sel::Absent(0), Uri::Short(1)),
+                DOp::Remove(Sel::Last),
+                set(Sel::Fresh, Uri::Short(1)),
+                set(Sel::Fresh, Uri::Short(1)),
+            ],
+        },
+    }
+}
+fn cap_slabs(tier: Tier) -> u64 {
+    // reaching 5 000 documents / 10 000 tokens through the API costs 10-60 s each: thorough only
+    tier.pick(0, 4)
+}
+/// slab 0: documents at 5 000; slab 1: tokens at 10 000; thorough adds the second variant of each
+fn cap_run(_tier: Tier, slab: u64, ctx: &mut Ctx, out: &mut FixedOut) -> R {
+    out.evaluations = 1;
+    let (r, js) = if slab % 2 == 0 {
+        let c = cap_docs_case(slab / 2);
+        (run_docs(&c, ctx), serde_json::to_value(&c).ok())
+    } else {
+        let c = cap_binder_case(slab / 2);
+        (run_binder(&c, ctx), serde_json::to_value(&c).ok())
+    };
+    ctx.nontrivial = false;
+    if r.is_err() {
+        out.failing = js;
+    } else {
+        out.nontrivial.push(hash_str(&format!("capacity-{slab}")));
+        ctx.class("capacity_scenario");
+    }
+    r
+}
+
+// ================================================================== registration
+
+/// generator + non-triviality rule of these sub-checks (for `Property.rule` in c20.rs)
+pub const RULE: &str = "ctx-rules: multisig example account + 6 accept-all policies; history <=40 (thorough 50) of add_context_rule (fresh masks over 4 signers/3 policies/4 types, copy of a live rule with permuted signers, copy of a removed rule, copy of a rule as it was before an edit, one-edit-away twin, 13..16 signers / 0..6 policies), remove_context_rule, add/remove signer/policy (member / non-member selectors, edits aimed at creating a twin), rename, valid_until, ledger advance; profiles: general, 11..14 pre-filled rules, per-rule limits; non-trivial = removal of a rule that is neither first nor last of its type followed by removal of its successor, OR a duplicate refused plus a freed fingerprint re-added. binder/docs/compliance: history <=40 (edge profile <=14) of add / remove / update / batch over 6..8 universe keys + fresh keys with selectors First/Last/Swapped/Mid/At/Absent/Removed/Elsewhere resolved against the registry's own enumeration, pre-filled to 0..40 or to a bucket edge (tokens 98..102/198..202/299..301, documents 48..52/99..101, modules 17..20 per hook); non-trivial = removal of an element that is neither first nor last followed by removal of the element that then sits at its position. capacity (thorough only): 4 scripted histories at 4 999/4 998 documents and 9 999/9 800 tokens. distinct = distinct serialised case";
+
+/// suggested vacuity floors (class, quick, thorough) — about 1/10 of the counts measured over seeds 0..5
+pub const FLOORS: &[(&str, u64, u64)] = &[
+    ("nontrivial:ctx-rules", 5, 75),
+    ("nontrivial:binder", 18, 270),
+    ("nontrivial:docs", 15, 225),
+    ("nontrivial:compliance", 5, 75),
+    ("rules:readd_freed_fingerprint_ok", 10, 150),
+    ("rules:permuted_duplicate_refused", 3, 45),
+    ("rules:add_at_limit_ok", 8, 120),
+    ("rules:add_refused:limit-rules", 8, 120),
+    ("binder:unbind_swaps_across_buckets", 50, 750),
+    ("docs:remove_swaps_across_buckets", 5, 75),
+    ("compliance:add_ok:at-limit", 3, 45),
+    ("compliance:add_refused:limit-modules", 3, 45),
+    ("rules:add_signer_ok:at-limit", 1, 15),
+    ("rules:add_policy_ok:at-limit", 3, 45),
+    ("binder:batch_ok:max-batch", 2, 30),
+    ("docs:set_ok:uri-at-limit", 5, 75),
+];
 
 pub fn subs() -> Vec<Box<dyn SubCheck>> {
-    vec![]
+    vec![
+        gen_sub::<RCase>("ctx-rules", 400, 6000, rcase_strategy, run_rules),
+        gen_sub::<BCase>("binder", 400, 6000, bcase_strategy, run_binder),
+        gen_sub::<DCase>("docs", 400, 6000, dcase_strategy, run_docs),
+        gen_sub::<MCase>("compliance", 400, 6000, mcase_strategy, run_compliance),
+        Box::new(Fixed { name: "bucket-capacity", slabs: cap_slabs, run: cap_run }),
+    ]
 }
